@@ -1,134 +1,36 @@
-(* C10 / C06 for every schedule of the stack protocol model (Model/StackProto.v).
+(* C10 / C06 for every schedule of the stack protocol model (Model/StackProto.v):
+   a handle's view is one committed snapshot, views of a handle only grow, no
+   read fails, what a handle holds after a call is a version tables.list had.
 
-   Findings (section 0).  The statements
-       forall ... , init_ok tabs -> Forall (forallb modelled) scripts -> c10_ok (trace_of ...) = true
-   and the same for c06_ok are FALSE in the model.  Three vm_compute-checked
-   counterexamples are given; each isolates one reason:
-     (R1) a Read on a handle without a stack returns RNoStack, which c10_loop
-          counts as a failed read;
-     (R2) reload gives up silently when its attempts run out: an Open after a
-          Read can return the EMPTY stack with ROk, and the next Read shows
-          fewer transactions than the previous one of the same handle
-          (protocol finding: the give-up path of reload);
-     (R3) c10_loop never forgets the pending transaction of an Add that did
-          not commit (c04_loop does, at ERet): a later compaction by the same
-          handle is then taken for the commit of that transaction and the
-          oracle's commit sequence gets a transaction nobody committed
-          (predicate finding).
-
-   What is proved (for ALL schedules, size oracles, attempt bounds), from one
-   proof about a loop [c10g_loop] indexed by a policy [pol] (three booleans that
-   switch the three repairs on):
-     - [c10_all_traces], [c06_all_traces]: the official predicates (policy
-       [pol0], [c10g_loop pol0 = c10_loop]) for scripts that additionally
-       satisfy [c10_script pol0]: no Read without an open stack, no Open after
-       a Read, no CompactAll / Expire after an Add in the same script.  Each of
-       the three conditions closes one of the ways out above and is necessary
-       (each counterexample violates just that one, [Examples.scripts*_bad]);
-     - [c10_rep_all_traces], [c06_rep_all_traces]: the repaired predicate
-       [c10_ok_rep] (policy [pol1]: ERet forgets the handle's pending Add as
-       c04_loop does; a Read answered RNoStack is not a failed read) for
-       scripts satisfying [c10_script pol1]: no Open after a Read on an open
-       stack.  R2 remains a violation of this predicate ([Examples.rep_reopen]);
-     - [c10_rep2_all_traces], [c06_rep2_all_traces]: policy [pol2] = [pol1] and
-       an Open (ECall h AOpen) forgets what the handle's previous stack showed,
-       i.e. views are monotone per opened stack: EVERY modelled script.
+   History.  An earlier version of this file refuted the statements for the
+   then model / predicate (R1: a Read without a stack counted as a failed read;
+   R2: an Open whose reload gave up returned the empty stack with ROk; R3:
+   c10_loop kept the pending transaction of a failed Add).  R2 was repaired in
+   the Go code and the model ([open_reload]: an Open now loads a version that
+   was current during the call, or fails), R1 and R3 in the predicate ([cx_clr]
+   at every ERet, RNoStack tolerated).  With these the statements hold for every
+   modelled script, which is what is proved here.
 
    Structure
-     0. the counterexamples
      1. lists, is_perm_prefix
-     2. the policy-indexed loop [c10g_loop]; [c10g_loop pol0 = c10_loop]
-     3. a second judgement [okv] over the programs (next to StackInvProofs.ok):
-        which contents of tables.list a call has read, that the stack it
-        returns carries the names of one of them (or of the stack it started
-        with; the empty one for Open), and whether it may commit
-     4. script conditions, the loop state along the events of a step
-     5. the strengthened world invariant [XInv] on top of StackInvProofs.WInv:
-        every recorded version of tables.list (the ghost is the loop's own
-        state [c10_state]) holds, flattened through the ghost table map [G], a
-        prefix of the commit sequence; every handle's stack, and every list a
-        running call has read, is a recorded version not shorter than what the
-        handle's last read showed ([vbound]); preservation by the start of a
-        call, a file-system operation, the end of a call ([x_call], [x_req],
-        [x_finish]), with the loop equations; [step_x], [crash_x], [run_x]
-     6. the initial world, the theorems *)
+     2. a second judgement [okv] over the programs (next to StackInvProofs.ok):
+        which contents of tables.list a call has read, and that the stack it
+        returns carries the names of one of them or of the stack it started with
+     3. the state of c10_loop along the events of a step
+     4. the strengthened world invariant [XInv] on top of StackInvProofs.WInv
+        (the ghost is c10_loop's own state): every recorded version of
+        tables.list holds, flattened through the ghost table map [G], a prefix
+        of the commit sequence; every handle's stack, and every list a running
+        call has read, is a recorded version not shorter than what the handle's
+        last read showed ([vbound]); pending Adds agree with c04_loop's;
+        preservation by the start of a call, a file-system operation, the end
+        of a call ([x_call], [x_req], [x_finish]) with the loop equations;
+        [step_x], [crash_x], [run_x]
+     5. the initial world, the theorems *)
 From Coq Require Import List NArith Arith Bool Lia.
 From RT Require Import Model.StackTrace Model.Segments Model.StackProto Proofs.StackInvProofs.
 Import ListNotations.
 Local Open Scope nat_scope.
-
-(* ------------------------------------------------------------------ *)
-(* 0. the unrestricted statements are false                            *)
-(* ------------------------------------------------------------------ *)
-
-Module Refuted.
-  Definition so (n : nat) : N := 100%N.
-  Definition tf (mn mx : N) (txs : list nat) : tfile :=
-    {| tf_min := mn; tf_max := mx; tf_txs := txs; tf_size := 100 |}.
-  Definition tabs2 : list (nat * tfile) := [(0, tf 1 1 [10]); (1, tf 2 2 [11])].
-  Fixpoint rep {A} (n : nat) (x : A) : list A := match n with O => [] | S k => x :: rep k x end.
-
-  Lemma tabs2_ok : init_ok tabs2.
-  Proof. split; reflexivity. Qed.
-
-  (* R1: a read on a handle that has no stack *)
-  Definition scripts1 : list (list apiop) := [[ARead]].
-  Definition sched1 : list sched_item := [Step 0 None].
-  Lemma scripts1_modelled : Forall (fun s => forallb modelled s = true) scripts1.
-  Proof. repeat constructor. Qed.
-  Lemma c10_refuted_nostack : c10_ok (trace_of so 50 tabs2 scripts1 sched1) = false.
-  Proof. vm_compute. reflexivity. Qed.
-
-  (* R2: handle 0 opens and reads (2 transactions); handle 1 opens; handle 0 opens again and
-     reads tables.list = [0;1]; handle 1 compacts and unlinks tables 0 and 1; handle 0 fails
-     to open table 0, sees another list, has no attempt left (attempts = 1), keeps the empty
-     stack it started the Open with and reports success; its next read shows nothing *)
-  Definition scripts2 : list (list apiop) := [[AOpen; ARead; AOpen; ARead]; [AOpen; ACompactAll]].
-  Definition sched2 : list sched_item :=
-    rep 5 (Step 0 None) ++ rep 4 (Step 1 None) ++ rep 2 (Step 0 None) ++ rep 14 (Step 1 None) ++ rep 4 (Step 0 None).
-  Lemma scripts2_modelled : Forall (fun s => forallb modelled s = true) scripts2.
-  Proof. repeat constructor. Qed.
-  Lemma c10_refuted_reopen : c10_ok (trace_of so 1 tabs2 scripts2 sched2) = false.
-  Proof. vm_compute. reflexivity. Qed.
-  Lemma reopen_reads :
-    filter (fun e => match e with ERet _ ARead _ | ERet _ AOpen _ => true | _ => false end)
-           (trace_of so 1 tabs2 scripts2 sched2)
-    = [ERet 0 AOpen ROk; ERet 0 ARead (RView [10; 11] (Some 11)); ERet 1 AOpen ROk;
-       ERet 0 AOpen ROk; ERet 0 ARead (RView [] None)].
-  Proof. vm_compute. reflexivity. Qed.
-
-  (* R3: handle 1 adds 20; handle 0 (stale) fails to add 7 and then compacts: c10_loop appends 7
-     to its commit sequence; handle 1 adds 21 and reads [10;11;20;21] *)
-  Definition scripts3 : list (list apiop) :=
-    [[AOpen; AAdd 7 false; ACompactAll]; [AOpen; AAdd 20 false; AAdd 21 false; AAdd 21 false; ARead]].
-  Definition sched3 : list sched_item :=
-    rep 4 (Step 0 None) ++ rep 14 (Step 1 None) ++ rep 80 (Step 0 None) ++ rep 80 (Step 1 None).
-  Lemma scripts3_modelled : Forall (fun s => forallb modelled s = true) scripts3.
-  Proof. repeat constructor. Qed.
-  Lemma c10_refuted_pending : c10_ok (trace_of so 50 tabs2 scripts3 sched3) = false.
-  Proof. vm_compute. reflexivity. Qed.
-  Lemma pending_c04_c05 :
-    c04_ok (trace_of so 50 tabs2 scripts3 sched3) = true /\ c05_ok (trace_of so 50 tabs2 scripts3 sched3) = true.
-  Proof. split; vm_compute; reflexivity. Qed.
-
-  Theorem c10_all_traces_refuted :
-    ~ (forall size_oracle attempts tabs scripts sched,
-         init_ok tabs -> Forall (fun s => forallb modelled s = true) scripts ->
-         c10_ok (trace_of size_oracle attempts tabs scripts sched) = true).
-  Proof.
-    intro H. pose proof (H so 1 tabs2 scripts2 sched2 tabs2_ok scripts2_modelled) as E.
-    rewrite c10_refuted_reopen in E. discriminate E.
-  Qed.
-
-  Theorem c06_all_traces_refuted :
-    ~ (forall size_oracle attempts tabs scripts sched,
-         init_ok tabs -> Forall (fun s => forallb modelled s = true) scripts ->
-         c06_ok (trace_of size_oracle attempts tabs scripts sched) = true).
-  Proof.
-    intro H. pose proof (H so 1 tabs2 scripts2 sched2 tabs2_ok scripts2_modelled) as E.
-    unfold c06_ok in E. rewrite c10_refuted_reopen, andb_false_r in E. discriminate E.
-  Qed.
-End Refuted.
 
 (* ------------------------------------------------------------------ *)
 (* 1. lists                                                            *)
@@ -180,151 +82,71 @@ Proof.
   - intro H. exists v. split; [exact H|apply list_nat_eqb_refl].
 Qed.
 
-(* ------------------------------------------------------------------ *)
-(* 2. the policy-indexed loop                                          *)
-(* ------------------------------------------------------------------ *)
+Lemma assoc_cons_eq : forall h v l, assoc h ((h, v) :: l) = Some v.
+Proof. intros. cbn. rewrite Nat.eqb_refl. reflexivity. Qed.
+Lemma assoc_cons_neq : forall i h (v : nat) l, i <> h -> assoc i ((h, v) :: l) = assoc i l.
+Proof. intros. cbn. destruct (Nat.eqb_spec i h); [congruence|reflexivity]. Qed.
 
-Record pol := mkP {
-  p_clr : bool;       (* ERet forgets the handle's pending Add, as c04_loop does *)
-  p_tol : bool;       (* a Read answered RNoStack is not a failed read *)
-  p_new : bool }.     (* an Open starts a new stack: forget what the handle's previous stack showed *)
-
-Definition pol0 : pol := mkP false false false.      (* Model/StackTrace.c10_loop *)
-Definition pol1 : pol := mkP true true false.        (* the repaired predicate *)
-Definition pol2 : pol := mkP true true true.         (* ... with views monotone per opened stack *)
-
-Definition cx_clr (P : pol) (h : nat) (st : c10_state) : c10_state :=
-  if p_clr P then {| cx_commits := cx_commits st; cx_pending := unassoc h (cx_pending st);
-                     cx_seen := cx_seen st; cx_versions := cx_versions st |}
-  else st.
-
-Definition cx_new (P : pol) (h : nat) (st : c10_state) : c10_state :=
-  if p_new P then {| cx_commits := cx_commits st; cx_pending := cx_pending st;
-                     cx_seen := unassoc h (cx_seen st); cx_versions := cx_versions st |}
-  else st.
-
-Fixpoint c10g_loop (P : pol) (init : bool) (st : c10_state) (tr : list event) : bool :=
-  match tr with
-  | [] => true
-  | ESnap s :: t =>
-      let v := listed s in
-      let vs := if existsb (list_nat_eqb v) (cx_versions st) then cx_versions st else v :: cx_versions st in
-      if init then c10g_loop P false {| cx_commits := snap_txs s; cx_pending := []; cx_seen := []; cx_versions := [v; []] |} t
-      else c10g_loop P false {| cx_commits := cx_commits st; cx_pending := cx_pending st; cx_seen := cx_seen st; cx_versions := vs |} t
-  | ECall h (AAdd tx _ | AAddMulti tx _) :: t =>
-      c10g_loop P init {| cx_commits := cx_commits st; cx_pending := (h, tx) :: unassoc h (cx_pending st);
-                          cx_seen := cx_seen st; cx_versions := cx_versions st |} t
-  | ECall h AOpen :: t => c10g_loop P init (cx_new P h st) t
-  | EFs h (FRename PL) PLL FOk _ :: t =>
-      match assoc h (cx_pending st) with
-      | Some tx => c10g_loop P init {| cx_commits := cx_commits st ++ [tx]; cx_pending := unassoc h (cx_pending st);
-                                       cx_seen := cx_seen st; cx_versions := cx_versions st |} t
-      | None => c10g_loop P init st t
-      end
-  | ERet h ARead (RView txs shared) :: t =>
-      let k0 := match assoc h (cx_seen st) with Some k => k | None => O end in
-      match is_perm_prefix (S (length (cx_commits st))) txs (cx_commits st) k0 with
-      | None => false
-      | Some k =>
-          (match shared, rev (firstn k (cx_commits st)) with
-           | Some x, y :: _ => Nat.eqb x y
-           | None, [] => true
-           | _, _ => false
-           end)
-          && c10g_loop P init (cx_clr P h {| cx_commits := cx_commits st; cx_pending := cx_pending st;
-                                             cx_seen := (h, k) :: unassoc h (cx_seen st); cx_versions := cx_versions st |}) t
-      end
-  | ERet h ARead RNoStack :: t => p_tol P && c10g_loop P init (cx_clr P h st) t
-  | ERet h ARead _ :: t => false
-  | ERet h _ _ :: t => c10g_loop P init (cx_clr P h st) t
-  | EMem h names closed :: t =>
-      Nat.eqb closed 0 && existsb (list_nat_eqb names) (cx_versions st) && c10g_loop P init st t
-  | EViol :: _ => false
-  | _ :: t => c10g_loop P init st t
-  end.
-
-Definition cx0 : c10_state := {| cx_commits := []; cx_pending := []; cx_seen := []; cx_versions := [[]] |}.
-
-(* the repaired C10 / C06 predicates *)
-Definition c10_ok_rep (tr : list event) : bool := c10g_loop pol1 true cx0 tr.
-Definition c06_ok_rep (tr : list event) : bool := c04_ok tr && c05_ok tr && c10_ok_rep tr.
-Definition c10_ok_rep2 (tr : list event) : bool := c10g_loop pol2 true cx0 tr.
-Definition c06_ok_rep2 (tr : list event) : bool := c04_ok tr && c05_ok tr && c10_ok_rep2 tr.
-
-Lemma c10g_pol0 : forall tr init st, c10g_loop pol0 init st tr = c10_loop init st tr.
+Lemma assoc_unassoc_cong : forall l l' h i,
+  assoc i l = assoc i l' -> assoc i (unassoc h l) = assoc i (unassoc h l').
 Proof.
-  induction tr as [|e t IH]; intros init st; [reflexivity|].
-  destruct e as [h op p r names|s|h op|h op r|h names closed|h|].
-  - destruct op; try (cbn; apply IH).
-    destruct dst; try (cbn; apply IH).
-    destruct p; try (cbn; apply IH).
-    destruct r; try (cbn; apply IH).
-    cbn. destruct (assoc h (cx_pending st)); apply IH.
-  - cbn. destruct init; apply IH.
-  - destruct op; cbn; apply IH.
-  - destruct op; try (cbn; apply IH).
-    destruct r; try reflexivity.
-    cbn [c10g_loop c10_loop cx_clr pol0 p_clr p_tol]. cbv zeta.
-    destruct (is_perm_prefix _ _ _ _); [|reflexivity]. rewrite IH. reflexivity.
-  - cbn. rewrite IH. reflexivity.
-  - cbn. apply IH.
-  - reflexivity.
+  intros l l' h i E. destruct (Nat.eq_dec i h) as [->|Hne].
+  - rewrite !assoc_unassoc_eq. reflexivity.
+  - rewrite !assoc_unassoc_neq by exact Hne. exact E.
 Qed.
 
-Lemma c10_ok_pol0 : forall tr, c10_ok tr = c10g_loop pol0 true cx0 tr.
-Proof. intro tr. symmetry. apply c10g_pol0. Qed.
+Lemma apiop_eq_ARead : forall o, o = ARead \/ o <> ARead.
+Proof. destruct o; try (right; discriminate). left. reflexivity. Qed.
 
 (* ------------------------------------------------------------------ *)
-(* 3. what a call reads and what it returns                            *)
+(* 2. what a call reads and what it returns                            *)
 (* ------------------------------------------------------------------ *)
 
 Definition rd_step (q : req) (rs : resp) (rd : list (list nat)) : list (list nat) :=
   match q with QReadList => lnames rs :: rd | _ => rd end.
 
-(* [rd]: the contents of tables.list read so far (and the names of the stack the call
-   started with); [mc]: may the program commit *)
-Fixpoint okv {A} (mc : bool) (rd : list (list nat)) (p : prog A) (Q : list (list nat) -> A -> Prop) : Prop :=
+(* [rd]: the contents of tables.list read so far (and the names of the stack the call started with) *)
+Fixpoint okv {A} (rd : list (list nat)) (p : prog A) (Q : list (list nat) -> A -> Prop) : Prop :=
   match p with
   | Ret a => Q rd a
-  | Op q k => (is_commit q = true -> mc = true) /\ forall rs, okv mc (rd_step q rs rd) (k rs) Q
+  | Op q k => forall rs, okv (rd_step q rs rd) (k rs) Q
   end.
 
-Lemma okv_bind : forall {A B} (p : prog A) (f : A -> prog B) mc rd Q Q',
-  okv mc rd p Q -> (forall rd' a, Q rd' a -> okv mc rd' (f a) Q') -> okv mc rd (pbind p f) Q'.
+Lemma okv_bind : forall {A B} (p : prog A) (f : A -> prog B) rd Q Q',
+  okv rd p Q -> (forall rd' a, Q rd' a -> okv rd' (f a) Q') -> okv rd (pbind p f) Q'.
 Proof.
-  induction p as [a|q k IH]; intros f mc rd Q Q' H Hf; cbn [pbind okv] in *.
+  induction p as [a|q k IH]; intros f rd Q Q' H Hf; cbn [pbind okv] in *.
   - apply Hf. exact H.
-  - destruct H as [Ha Hk]. split; [exact Ha|]. intros rs. eapply IH; eauto.
+  - intros rs. eapply IH; eauto.
 Qed.
 
-Lemma okv_conseq : forall {A} (p : prog A) mc rd (Q Q' : list (list nat) -> A -> Prop),
-  okv mc rd p Q -> (forall rd' a, Q rd' a -> Q' rd' a) -> okv mc rd p Q'.
+Lemma okv_conseq : forall {A} (p : prog A) rd (Q Q' : list (list nat) -> A -> Prop),
+  okv rd p Q -> (forall rd' a, Q rd' a -> Q' rd' a) -> okv rd p Q'.
 Proof.
-  induction p as [a|q k IH]; intros mc rd Q Q' H HQ; cbn [okv] in *.
+  induction p as [a|q k IH]; intros rd Q Q' H HQ; cbn [okv] in *.
   - apply HQ. exact H.
-  - destruct H as [Ha Hk]. split; [exact Ha|]. intros rs. eapply IH; eauto.
+  - intros rs. eapply IH; eauto.
 Qed.
 
-Lemma okv_op : forall {B} q (f : resp -> prog B) mc rd Q,
-  (is_commit q = true -> mc = true) -> (forall rs, okv mc (rd_step q rs rd) (f rs) Q) ->
-  okv mc rd (pbind (op q) f) Q.
-Proof. intros. cbn [pbind op okv]. split; assumption. Qed.
+Lemma okv_op : forall {B} q (f : resp -> prog B) rd Q,
+  (forall rs, okv (rd_step q rs rd) (f rs) Q) -> okv rd (pbind (op q) f) Q.
+Proof. intros. cbn [pbind op okv]. assumption. Qed.
 
-Ltac vop := apply okv_op; [let X := fresh in intro X; first [discriminate X | reflexivity]|].
+Ltac vop := apply okv_op.
 
-Lemma remove_tabs_okv : forall mc l rd, okv mc rd (remove_tabs l) (fun rd' _ => rd' = rd).
+Lemma remove_tabs_okv : forall l rd, okv rd (remove_tabs l) (fun rd' _ => rd' = rd).
 Proof.
   induction l as [|n t IH]; intros rd; cbn [remove_tabs]; [reflexivity|].
   vop. intros rs. cbn [rd_step]. apply IH.
 Qed.
 
-Lemma remove_tlocks_okv : forall mc l rd, okv mc rd (remove_tlocks l) (fun rd' _ => rd' = rd).
+Lemma remove_tlocks_okv : forall l rd, okv rd (remove_tlocks l) (fun rd' _ => rd' = rd).
 Proof.
   induction l as [|n t IH]; intros rd; cbn [remove_tlocks]; [reflexivity|].
   vop. intros rs. cbn [rd_step]. apply IH.
 Qed.
 
-Lemma remove_any_okv : forall mc fuel cands rd, okv mc rd (remove_any fuel cands) (fun rd' _ => rd' = rd).
+Lemma remove_any_okv : forall fuel cands rd, okv rd (remove_any fuel cands) (fun rd' _ => rd' = rd).
 Proof.
   induction fuel as [|f IH]; intros cands rd.
   - destruct cands; reflexivity.
@@ -332,7 +154,7 @@ Proof.
     vop. intros rs. cbn [rd_step]. destruct rs; try reflexivity. apply IH.
 Qed.
 
-Lemma lock_tabs_okv : forall mc todo taken rd, okv mc rd (lock_tabs todo taken) (fun rd' _ => rd' = rd).
+Lemma lock_tabs_okv : forall todo taken rd, okv rd (lock_tabs todo taken) (fun rd' _ => rd' = rd).
 Proof.
   induction todo as [|n t IH]; intros taken rd; cbn [lock_tabs]; [reflexivity|].
   vop. intros rs. cbn [rd_step].
@@ -343,13 +165,13 @@ Qed.
 Lemma mnames_rev : forall m : mem, mnames (rev m) = rev (mnames m).
 Proof. intro m. unfold mnames. apply map_rev. Qed.
 
-Lemma open_all_okv : forall mc reuse old names acc rd,
-  okv mc rd (open_all reuse old names acc)
+Lemma open_all_okv : forall reuse old names acc rd,
+  okv rd (open_all reuse old names acc)
       (fun rd' o => rd' = rd /\ forall m, o = Some m -> mnames m = rev (mnames acc) ++ names).
 Proof.
-  intros mc reuse old. induction names as [|n t IH]; intros acc rd; cbn [open_all].
+  intros reuse old. induction names as [|n t IH]; intros acc rd; cbn [open_all].
   - cbn [okv]. split; [reflexivity|]. intros m E. inversion E; subst. rewrite mnames_rev, app_nil_r. reflexivity.
-  - assert (Hstep : forall f, okv mc rd (open_all reuse old t ((n, f) :: acc))
+  - assert (Hstep : forall f, okv rd (open_all reuse old t ((n, f) :: acc))
               (fun rd' o => rd' = rd /\ forall m, o = Some m -> mnames m = rev (mnames acc) ++ n :: t)).
     { intro f. eapply okv_conseq; [apply IH|]. cbn beta. intros rd' o [E H]. split; [exact E|].
       intros m Em. rewrite (H m Em). cbn [mnames map fst rev]. rewrite <- app_assoc. reflexivity. }
@@ -361,10 +183,10 @@ Qed.
 Definition Pv {B} (rd : list (list nat)) : list (list nat) -> mem * B -> Prop :=
   fun rd' res => incl rd rd' /\ In (mnames (fst res)) rd'.
 
-Lemma reload_okv : forall mc a reuse old rd, In (mnames old) rd ->
-  okv mc rd (reload a reuse old) (Pv rd).
+Lemma reload_okv : forall a reuse old rd, In (mnames old) rd ->
+  okv rd (reload a reuse old) (Pv rd).
 Proof.
-  intros mc. induction a as [|a IH]; intros reuse old rd Hold; cbn [reload].
+  induction a as [|a IH]; intros reuse old rd Hold; cbn [reload].
   - cbn [okv]. split; [apply incl_refl|exact Hold].
   - vop. intros rs. cbn [rd_step].
     change (match rs with SNames (Some l) => l | _ => [] end) with (lnames rs).
@@ -382,8 +204,23 @@ Proof.
         intros x Hx. apply H1. right. right. exact Hx.
 Qed.
 
+(* the first load returns the names of a list it has read, or nothing *)
+Lemma open_reload_okv : forall a rd,
+  okv rd (open_reload a) (fun rd' res => forall m, res = Some m -> In (mnames m) rd').
+Proof.
+  induction a as [|a IH]; intros rd; cbn [open_reload].
+  - cbn [okv]. intros m E. discriminate E.
+  - vop. intros rs. cbn [rd_step].
+    change (match rs with SNames (Some l) => l | _ => [] end) with (lnames rs).
+    eapply okv_bind; [apply open_all_okv|]. cbn beta. intros rd1 o [-> Ho].
+    destruct o as [m|].
+    + cbn [okv]. intros m' E. inversion E; subst m'. rewrite (Ho m eq_refl). cbn. left. reflexivity.
+    + vop. intros rs2. cbn [rd_step].
+      destruct (names_eqb _ _); [cbn [okv]; intros m E; discriminate E|apply IH].
+Qed.
+
 Lemma compact_range_okv : forall att first last expiry m rd, In (mnames m) rd ->
-  okv true rd (compact_range att first last expiry m) (Pv rd).
+  okv rd (compact_range att first last expiry m) (Pv rd).
 Proof.
   intros att first last expiry m rd Hm. unfold compact_range.
   assert (Hdone : forall rd' (b : bool), incl rd rd' -> Pv rd rd' (m, b)).
@@ -425,7 +262,7 @@ Proof.
 Qed.
 
 Lemma auto_compact_okv : forall att m rd, In (mnames m) rd ->
-  okv true rd (auto_compact att m) (fun rd' m' => incl rd rd' /\ In (mnames m') rd').
+  okv rd (auto_compact att m) (fun rd' m' => incl rd rd' /\ In (mnames m') rd').
 Proof.
   intros att m rd Hm. unfold auto_compact.
   destruct (suggest _) as [[s e]|].
@@ -433,16 +270,14 @@ Proof.
   - cbn [okv]. split; [apply incl_refl|exact Hm].
 Qed.
 
-Definition add_mc (kind : add_kind) (auto : bool) : bool := match kind with KAdd _ => true | _ => auto end.
-
 Lemma add_okv : forall att kind auto m rd, In (mnames m) rd ->
-  okv (add_mc kind auto) rd (add att kind auto m) (Pv rd).
+  okv rd (add att kind auto m) (Pv rd).
 Proof.
   intros att kind auto m rd Hm. unfold add.
   assert (Hdone : forall rd' (r : apires), incl rd rd' -> Pv rd rd' (m, r)).
   { intros rd' b H. split; [exact H|]. apply H. exact Hm. }
   assert (Hfail : forall rd', incl rd rd' ->
-            okv (add_mc kind auto) rd' (do! rl := reload att true m in Ret (fst rl, RLockFailure)) (Pv rd)).
+            okv rd' (do! rl := reload att true m in Ret (fst rl, RLockFailure)) (Pv rd)).
   { intros rd' I. eapply okv_bind; [apply reload_okv; apply I; exact Hm|]. cbn beta. intros rd2 rl [I2 H2].
     cbn [okv]. split; [|exact H2]. intros x Hx. apply I2, I. exact Hx. }
   vop. intros r. cbn [rd_step].
@@ -475,7 +310,7 @@ Proof.
     vop. intros r6. cbn [rd_step okv]. apply Hdone, I1.
 Qed.
 
-Lemma close_okv : forall m rd, okv false rd (close m) (fun _ _ => True).
+Lemma close_okv : forall m rd, okv rd (close m) (fun _ _ => True).
 Proof.
   intros m rd. unfold close. vop. intros rs. cbn [rd_step].
   destruct (match rs with SNames (Some l) => l | _ => [] end) as [|a t]; [exact I|].
@@ -485,118 +320,81 @@ Qed.
 (* ---------------- call_prog ---------------- *)
 
 Definition txsm (m : mem) : list nat := flat_map (fun x => tf_txs (snd x)) m.
-Definition is_some {A} (o : option A) : bool := match o with Some _ => true | None => false end.
-Definition opened_after (o : apiop) (b : bool) : bool := match o with AOpen => true | AClose => false | _ => b end.
-Definition may_commit (o : apiop) : bool := match o with AAdd _ _ | ACompactAll | AExpire => true | _ => false end.
 
 Definition rd_init (o : apiop) (m : option mem) : list (list nat) :=
   match o with
-  | AOpen => [[]]
+  | AOpen => []
   | _ => match m with Some mm => [mnames mm] | None => [] end
   end.
 
 Definition Qv (o : apiop) (m0 : option mem) (rd : list (list nat)) (res : option mem * apires) : Prop :=
-  snd res = RErr \/
-  (is_some (fst res) = opened_after o (is_some m0) /\
-   (forall mm, fst res = Some mm -> In (mnames mm) rd) /\
-   (o = ARead -> match m0 with
-                 | Some mm => res = (Some mm, RView (txsm mm) (hd_error (rev (txsm mm))))
-                 | None => res = (None, RNoStack)
-                 end)).
+  (forall mm, fst res = Some mm -> In (mnames mm) rd) /\
+  (o = ARead -> match m0 with
+                | Some mm => res = (Some mm, RView (txsm mm) (hd_error (rev (txsm mm))))
+                | None => res = (None, RNoStack)
+                end).
 
-Lemma call_prog_okv : forall att o m, okv (may_commit o) (rd_init o m) (call_prog att o m) (Qv o m).
+Lemma call_prog_okv : forall att o m, okv (rd_init o m) (call_prog att o m) (Qv o m).
 Proof.
   intros att o m.
-  assert (Hnone : forall r, o <> AOpen -> o <> ARead -> m = None -> Qv o m (rd_init o m) (None, r)).
-  { intros r H1 H2 ->. right. cbn [fst snd is_some]. split; [destruct o; try reflexivity; congruence|].
-    split; [intros; discriminate|]. intro; congruence. }
-  destruct o; cbn [call_prog may_commit rd_init].
+  assert (Hnone : forall r, o <> ARead -> Qv o m (rd_init o m) (None, r)).
+  { intros r H2. split; [intros; discriminate|]. intro; congruence. }
+  assert (Hsame : forall mm r, o <> ARead -> o <> AOpen -> m = Some mm -> Qv o m (rd_init o m) (Some mm, r)).
+  { intros mm r H1 H2 ->. split; [|intro; congruence]. cbn [fst]. intros x E. inversion E; subst.
+    destruct o; try congruence; left; reflexivity. }
+  assert (Hwrap : forall (B : Type) mm (p : prog (mem * B)) (g : mem * B -> apires),
+            o <> ARead -> o <> AOpen -> m = Some mm -> okv [mnames mm] p (Pv [mnames mm]) ->
+            okv (rd_init o m) (wrap p (fun r => (Some (fst r), g r))) (Qv o m)).
+  { intros B mm p g H1 H2 -> Hp. replace (rd_init o (Some mm)) with [mnames mm] by (destruct o; try congruence; reflexivity).
+    unfold wrap. eapply okv_bind; [exact Hp|]. cbn beta. intros rd' res [I1 I2]. cbn [okv].
+    split; [|intro; congruence]. cbn [fst]. intros x E. inversion E; subst. exact I2. }
+  destruct o; cbn [call_prog].
   - (* Open *)
-    unfold wrap. eapply okv_bind; [apply reload_okv; left; reflexivity|]. cbn beta. intros rd' rl [I1 I2].
-    cbn [okv]. destruct (snd rl); [|left; reflexivity].
-    right. cbn [fst snd is_some opened_after]. split; [reflexivity|].
-    split; [intros x E; inversion E; subst; exact I2|discriminate].
+    unfold wrap. eapply okv_bind; [apply open_reload_okv|]. cbn beta. intros rd' [mm|] H; cbn [okv].
+    + split; [|discriminate]. cbn [fst]. intros x E. inversion E; subst. apply H. reflexivity.
+    + split; [intros; discriminate|discriminate].
   - (* Add *)
-    destruct m as [mm|]; [|apply Hnone; congruence].
-    unfold wrap. eapply okv_bind; [apply (add_okv att (KAdd tx) auto mm); left; reflexivity|].
-    cbn beta. intros rd' res [I1 I2]. cbn [okv]. right. cbn [fst snd is_some opened_after].
-    split; [reflexivity|]. split; [intros x E; inversion E; subst; exact I2|discriminate].
+    destruct m as [mm|]; [|apply Hnone; discriminate].
+    apply (Hwrap _ mm _ (fun r => snd r)); try discriminate; [reflexivity|]. apply add_okv. left. reflexivity.
   - (* AddMulti *)
-    destruct m as [mm|]; [|apply Hnone; congruence]. cbn [okv]. left. reflexivity.
+    destruct m as [mm|]; [|apply Hnone; discriminate]. cbn [okv]. apply Hsame; try discriminate. reflexivity.
   - (* AddEmpty *)
-    destruct m as [mm|]; [|apply Hnone; congruence].
-    unfold wrap. eapply okv_bind; [apply (add_okv att KEmpty false mm); left; reflexivity|].
-    cbn beta. intros rd' res [I1 I2]. cbn [okv]. right. cbn [fst snd is_some opened_after].
-    split; [reflexivity|]. split; [intros x E; inversion E; subst; exact I2|discriminate].
+    destruct m as [mm|]; [|apply Hnone; discriminate].
+    apply (Hwrap _ mm _ (fun r => snd r)); try discriminate; [reflexivity|]. apply add_okv. left. reflexivity.
   - (* AddBad *)
-    destruct m as [mm|]; [|apply Hnone; congruence].
-    unfold wrap. eapply okv_bind; [apply (add_okv att KBad false mm); left; reflexivity|].
-    cbn beta. intros rd' res [I1 I2]. cbn [okv]. right. cbn [fst snd is_some opened_after].
-    split; [reflexivity|]. split; [intros x E; inversion E; subst; exact I2|discriminate].
+    destruct m as [mm|]; [|apply Hnone; discriminate].
+    apply (Hwrap _ mm _ (fun r => snd r)); try discriminate; [reflexivity|]. apply add_okv. left. reflexivity.
   - (* CompactAll *)
-    destruct m as [mm|]; [|apply Hnone; congruence].
-    destruct mm as [|x mm].
-    + cbn [okv]. right. cbn [fst snd is_some opened_after]. split; [reflexivity|].
-      split; [intros y E; inversion E; subst; left; reflexivity|discriminate].
-    + unfold wrap. eapply okv_bind; [apply compact_range_okv; left; reflexivity|].
-      cbn beta. intros rd' res [I1 I2]. cbn [okv]. right. cbn [fst snd is_some opened_after].
-      split; [reflexivity|]. split; [intros y E; inversion E; subst; exact I2|discriminate].
+    destruct m as [mm|]; [|apply Hnone; discriminate].
+    destruct mm as [|x mm]; [cbn [okv]; apply Hsame; try discriminate; reflexivity|].
+    apply (Hwrap _ (x :: mm) _ (fun _ => ROk)); try discriminate; [reflexivity|].
+    apply compact_range_okv. left. reflexivity.
   - (* Expire *)
-    destruct m as [mm|]; [|apply Hnone; congruence].
-    destruct mm as [|x mm].
-    + cbn [okv]. right. cbn [fst snd is_some opened_after]. split; [reflexivity|].
-      split; [intros y E; inversion E; subst; left; reflexivity|discriminate].
-    + unfold wrap. eapply okv_bind; [apply compact_range_okv; left; reflexivity|].
-      cbn beta. intros rd' res [I1 I2]. cbn [okv]. right. cbn [fst snd is_some opened_after].
-      split; [reflexivity|]. split; [intros y E; inversion E; subst; exact I2|discriminate].
+    destruct m as [mm|]; [|apply Hnone; discriminate].
+    destruct mm as [|x mm]; [cbn [okv]; apply Hsame; try discriminate; reflexivity|].
+    apply (Hwrap _ (x :: mm) _ (fun _ => ROk)); try discriminate; [reflexivity|].
+    apply compact_range_okv. left. reflexivity.
   - (* Close *)
-    destruct m as [mm|].
-    + unfold wrap. eapply okv_bind; [apply close_okv|]. cbn beta. intros rd' _ _. cbn [okv]. right.
-      cbn [fst snd is_some opened_after]. split; [reflexivity|]. split; [intros; discriminate|discriminate].
-    + cbn [okv]. right. cbn [fst snd is_some opened_after]. split; [reflexivity|]. split; [intros; discriminate|discriminate].
+    destruct m as [mm|]; [|apply Hnone; discriminate].
+    unfold wrap. eapply okv_bind; [apply close_okv|]. cbn beta. intros rd' _ _. cbn [okv].
+    split; [intros; discriminate|discriminate].
   - (* Read *)
-    destruct m as [mm|]; cbn [okv]; right; cbn [fst snd is_some opened_after].
-    + split; [reflexivity|]. split; [intros y E; inversion E; subst; left; reflexivity|]. intros _. reflexivity.
-    + split; [reflexivity|]. split; [intros; discriminate|]. intros _. reflexivity.
+    destruct m as [mm|]; cbn [okv]; (split; [|intros _; reflexivity]).
+    + cbn [fst]. intros y E. inversion E; subst. left. reflexivity.
+    + intros; discriminate.
   - (* Clean *)
-    destruct m as [mm|]; [|apply Hnone; congruence]. cbn [okv]. left. reflexivity.
+    destruct m as [mm|]; [|apply Hnone; discriminate]. cbn [okv]. apply Hsame; try discriminate. reflexivity.
 Qed.
 
 (* ------------------------------------------------------------------ *)
-(* 4. scripts, the loop state along a step                             *)
+(* 3. the state of c10_loop along the events of a step                 *)
 (* ------------------------------------------------------------------ *)
 
-(* what a script has done so far: is the stack open, has a read on an open stack
-   happened, has an Add been called *)
-Record sst := mkS { s_open : bool; s_read : bool; s_add : bool }.
-
-Definition s_next (P : pol) (o : apiop) (s : sst) : option sst :=
-  match o with
-  | AOpen => if s_read s && negb (p_new P) then None else Some (mkS true false (s_add s))
-  | ARead => if s_open s then Some (mkS true true (s_add s)) else if p_tol P then Some s else None
-  | AClose => Some (mkS false (s_read s) (s_add s))
-  | AAdd _ _ | AAddMulti _ _ => Some (mkS (s_open s) (s_read s) true)
-  | ACompactAll | AExpire => if s_add s && negb (p_clr P) then None else Some s
-  | _ => Some s
-  end.
-
-Fixpoint wf_script (P : pol) (s : sst) (l : list apiop) : bool :=
-  match l with
-  | [] => true
-  | o :: t => match s_next P o s with Some s' => wf_script P s' t | None => false end
-  end.
-
-(* the hypothesis on scripts:
-   pol0: no Read without an open stack, no Open after a Read, no CompactAll / Expire after an Add;
-   pol1: no Open after a Read on an open stack *)
-Definition c10_script (P : pol) (l : list apiop) : bool := wf_script P (mkS false false false) l.
-
-Definition cx_call (P : pol) (h : nat) (o : apiop) (cx : c10_state) : c10_state :=
+Definition cx_call (h : nat) (o : apiop) (cx : c10_state) : c10_state :=
   match o with
   | AAdd tx _ | AAddMulti tx _ =>
       {| cx_commits := cx_commits cx; cx_pending := (h, tx) :: unassoc h (cx_pending cx);
          cx_seen := cx_seen cx; cx_versions := cx_versions cx |}
-  | AOpen => cx_new P h cx
   | _ => cx
   end.
 Definition cx_commit (h : nat) (cx : c10_state) : c10_state :=
@@ -613,39 +411,10 @@ Definition cx_read (h k : nat) (cx : c10_state) : c10_state :=
   {| cx_commits := cx_commits cx; cx_pending := cx_pending cx;
      cx_seen := (h, k) :: unassoc h (cx_seen cx); cx_versions := cx_versions cx |}.
 
-Lemma cx_clr_commits : forall P h cx, cx_commits (cx_clr P h cx) = cx_commits cx.
-Proof. intros. unfold cx_clr. destruct (p_clr P); reflexivity. Qed.
-Lemma cx_clr_seen : forall P h cx, cx_seen (cx_clr P h cx) = cx_seen cx.
-Proof. intros. unfold cx_clr. destruct (p_clr P); reflexivity. Qed.
-Lemma cx_clr_versions : forall P h cx, cx_versions (cx_clr P h cx) = cx_versions cx.
-Proof. intros. unfold cx_clr. destruct (p_clr P); reflexivity. Qed.
-Lemma cx_clr_pending_other : forall P h cx i, i <> h ->
-  assoc i (cx_pending (cx_clr P h cx)) = assoc i (cx_pending cx).
-Proof. intros. unfold cx_clr. destruct (p_clr P); [cbn; apply assoc_unassoc_neq; assumption|reflexivity]. Qed.
-Lemma cx_clr_pending_self : forall P h cx, p_clr P = true -> assoc h (cx_pending (cx_clr P h cx)) = None.
-Proof. intros P h cx E. unfold cx_clr. rewrite E. cbn. apply assoc_unassoc_eq. Qed.
-Lemma cx_clr_pending_some : forall P h cx,
-  assoc h (cx_pending (cx_clr P h cx)) <> None -> assoc h (cx_pending cx) <> None.
-Proof.
-  intros P h cx. unfold cx_clr. destruct (p_clr P); [|auto]. cbn. rewrite assoc_unassoc_eq. congruence.
-Qed.
-
 Lemma cx_req_seen : forall q h cx, cx_seen (cx_req q h cx) = cx_seen cx.
 Proof. intros. unfold cx_req, cx_commit. destruct (is_commit q); [|reflexivity]. destruct (assoc _ _); reflexivity. Qed.
 Lemma cx_req_versions : forall q h cx, cx_versions (cx_req q h cx) = cx_versions cx.
 Proof. intros. unfold cx_req, cx_commit. destruct (is_commit q); [|reflexivity]. destruct (assoc _ _); reflexivity. Qed.
-Lemma cx_req_pending_other : forall q h cx i, i <> h ->
-  assoc i (cx_pending (cx_req q h cx)) = assoc i (cx_pending cx).
-Proof.
-  intros. unfold cx_req, cx_commit. destruct (is_commit q); [|reflexivity].
-  destruct (assoc h _); [cbn; apply assoc_unassoc_neq; assumption|reflexivity].
-Qed.
-Lemma cx_req_pending_some : forall q h cx,
-  assoc h (cx_pending (cx_req q h cx)) <> None -> assoc h (cx_pending cx) <> None.
-Proof.
-  intros q h cx. unfold cx_req, cx_commit. destruct (is_commit q); [|auto].
-  destruct (assoc h (cx_pending cx)) eqn:E; [congruence|]. rewrite E. auto.
-Qed.
 Lemma cx_req_commits : forall q h cx, exists l, cx_commits (cx_req q h cx) = cx_commits cx ++ l.
 Proof.
   intros. unfold cx_req, cx_commit. destruct (is_commit q); [|exists []; rewrite app_nil_r; reflexivity].
@@ -659,61 +428,59 @@ Proof. intros v cx. cbn. destruct (existsb _ _) eqn:E; [apply existsb_eqb_In; ex
 Lemma cx_snap_old : forall v cx x, In x (cx_versions (cx_snap v cx)) -> x = v \/ In x (cx_versions cx).
 Proof. intros v cx x. cbn. destruct (existsb _ _); [auto|]. intros [<-|H]; auto. Qed.
 
-(* ---------------- the loop along the events of a step ---------------- *)
-
-Lemma c10g_call : forall P h o cx rest,
-  c10g_loop P false cx (ECall h o :: rest) = c10g_loop P false (cx_call P h o cx) rest.
+Lemma c10_call : forall h o cx rest,
+  c10_loop false cx (ECall h o :: rest) = c10_loop false (cx_call h o cx) rest.
 Proof. intros. destruct o; reflexivity. Qed.
 
-Lemma c10g_req : forall P h q rs fr cx s' rest,
+Lemma c10_req : forall h q rs fr cx s' rest,
   (is_commit q = true -> fr = FOk) ->
-  c10g_loop P false cx (req_event h q rs fr :: ESnap s' :: rest)
-  = c10g_loop P false (cx_snap (listed s') (cx_req q h cx)) rest.
+  c10_loop false cx (req_event h q rs fr :: ESnap s' :: rest)
+  = c10_loop false (cx_snap (listed s') (cx_req q h cx)) rest.
 Proof.
-  intros P h q rs fr cx s' rest Hc.
-  assert (Hsn : forall c0, c10g_loop P false c0 (ESnap s' :: rest) = c10g_loop P false (cx_snap (listed s') c0) rest)
+  intros h q rs fr cx s' rest Hc.
+  assert (Hsn : forall c0, c10_loop false c0 (ESnap s' :: rest) = c10_loop false (cx_snap (listed s') c0) rest)
     by reflexivity.
-  destruct q; cbn [req_event cx_req is_commit] in *; try (cbn [c10g_loop]; apply Hsn).
-  - destruct rs; cbn [c10g_loop]; apply Hsn.
-  - rewrite (Hc eq_refl). cbn [c10g_loop]. unfold cx_commit. destruct (assoc h (cx_pending cx)); apply Hsn.
+  destruct q; cbn [req_event cx_req is_commit] in *; try (cbn [c10_loop]; apply Hsn).
+  - destruct rs; cbn [c10_loop]; apply Hsn.
+  - rewrite (Hc eq_refl). cbn [c10_loop]. unfold cx_commit. destruct (assoc h (cx_pending cx)); apply Hsn.
 Qed.
 
-Lemma c10g_finish_other : forall P h o m r cx rest, o <> ARead ->
+Lemma c10_finish_other : forall h o m r cx rest, o <> ARead ->
   (forall mm, m = Some mm -> In (mnames mm) (cx_versions cx)) ->
-  c10g_loop P false cx (finish_events h o m r ++ rest) = c10g_loop P false (cx_clr P h cx) rest.
+  c10_loop false cx (finish_events h o m r ++ rest) = c10_loop false (cx_clr h cx) rest.
 Proof.
-  intros P h o m r cx rest Ho Hm. unfold finish_events.
-  assert (E : c10g_loop P false cx ((ERet h o r :: match m with Some mm => [EMem h (mnames mm) 0] | None => [] end) ++ rest)
-              = c10g_loop P false (cx_clr P h cx) (match m with Some mm => [EMem h (mnames mm) 0] | None => [] end ++ rest)).
+  intros h o m r cx rest Ho Hm. unfold finish_events.
+  assert (E : c10_loop false cx ((ERet h o r :: match m with Some mm => [EMem h (mnames mm) 0] | None => [] end) ++ rest)
+              = c10_loop false (cx_clr h cx) (match m with Some mm => [EMem h (mnames mm) 0] | None => [] end ++ rest)).
   { destruct o; try congruence; reflexivity. }
   rewrite E. destruct m as [mm|]; [|reflexivity].
-  cbn [app c10g_loop Nat.eqb andb]. rewrite cx_clr_versions.
+  cbn [app c10_loop Nat.eqb andb cx_clr cx_versions].
   rewrite (proj2 (existsb_eqb_In _ _) (Hm mm eq_refl)). reflexivity.
 Qed.
 
-Lemma c10g_finish_nostack : forall P h cx rest, p_tol P = true ->
-  c10g_loop P false cx (finish_events h ARead None RNoStack ++ rest) = c10g_loop P false (cx_clr P h cx) rest.
-Proof. intros P h cx rest E. cbn [finish_events app c10g_loop]. rewrite E. reflexivity. Qed.
+Lemma c10_finish_nostack : forall h cx rest,
+  c10_loop false cx (finish_events h ARead None RNoStack ++ rest) = c10_loop false (cx_clr h cx) rest.
+Proof. intros. reflexivity. Qed.
 
-Lemma c10g_finish_read : forall P h mm n cx rest,
+Lemma c10_finish_read : forall h mm n cx rest,
   match assoc h (cx_seen cx) with Some k => k | None => 0 end <= n -> n <= length (cx_commits cx) ->
   In (mnames mm) (cx_versions cx) ->
-  c10g_loop P false cx (finish_events h ARead (Some mm)
+  c10_loop false cx (finish_events h ARead (Some mm)
        (RView (firstn n (cx_commits cx)) (hd_error (rev (firstn n (cx_commits cx))))) ++ rest)
-  = c10g_loop P false (cx_clr P h (cx_read h n cx)) rest.
+  = c10_loop false (cx_clr h (cx_read h n cx)) rest.
 Proof.
-  intros P h mm n cx rest Hlo Hhi Hin. cbn [finish_events app c10g_loop]. cbv zeta.
+  intros h mm n cx rest Hlo Hhi Hin. cbn [finish_events app c10_loop]. cbv zeta.
   rewrite (ipp_found (cx_commits cx) n (n - match assoc h (cx_seen cx) with Some k => k | None => 0 end))
     by lia.
   assert (E : match hd_error (rev (firstn n (cx_commits cx))), rev (firstn n (cx_commits cx)) with
               | Some x, y :: _ => Nat.eqb x y | None, [] => true | _, _ => false end = true).
   { destruct (rev (firstn n (cx_commits cx))); cbn; [reflexivity|apply Nat.eqb_refl]. }
-  rewrite E. cbn [andb Nat.eqb]. rewrite cx_clr_versions. cbn [cx_versions cx_read].
+  rewrite E. cbn [andb Nat.eqb cx_clr cx_versions cx_read].
   rewrite (proj2 (existsb_eqb_In _ _) Hin). reflexivity.
 Qed.
 
 (* ------------------------------------------------------------------ *)
-(* 5. the strengthened world invariant                                 *)
+(* 4. the strengthened world invariant                                 *)
 (* ------------------------------------------------------------------ *)
 
 (* the transactions of a version of tables.list, through the ghost table map *)
@@ -728,51 +495,35 @@ Definition lowb (cx : c10_state) (i : nat) : nat := match assoc i (cx_seen cx) w
 Definition vbound (γ : ghost) (cx : c10_state) (i : nat) (v : list nat) : Prop :=
   In v (cx_versions cx) /\ lowb cx i <= length (vtx γ v).
 
-Definition flags_ok (cx : c10_state) (i : nat) (m : option mem) (ss : sst) : Prop :=
-  s_open ss = is_some m /\
-  (assoc i (cx_seen cx) <> None -> s_read ss = true) /\
-  (assoc i (cx_pending cx) <> None -> s_add ss = true).
+Definition hrun (γ : ghost) (cx : c10_state) (i : nat) (o : apiop)
+           (m0 : option mem) (p : prog (option mem * apires)) : Prop :=
+  exists rd, okv rd p (Qv o m0) /\ (forall v, In v rd -> vbound γ cx i v).
 
-Definition after_ok (P : pol) (cx : c10_state) (i : nat) (o : apiop) (m0 : option mem) (ss' : sst) : Prop :=
-  s_open ss' = opened_after o (is_some m0) /\
-  (assoc i (cx_seen cx) <> None -> s_read ss' = true) /\
-  (o = ARead -> m0 <> None -> s_read ss' = true) /\
-  (assoc i (cx_pending cx) <> None -> s_add ss' = true) /\
-  (o = ARead -> m0 = None -> p_tol P = true).
-
-Definition hrun (P : pol) (γ : ghost) (st : c04_state) (cx : c10_state) (i : nat) (o : apiop)
-           (m0 : option mem) (script : list apiop) (p : prog (option mem * apires)) : Prop :=
-  exists rd ss', okv (may_commit o) rd p (Qv o m0) /\
-    (forall v, In v rd -> vbound γ cx i v) /\
-    (may_commit o = true -> assoc i (cx_pending cx) = assoc i (c4_pending st)) /\
-    wf_script P ss' script = true /\ after_ok P cx i o m0 ss'.
-
-Definition hx (P : pol) (γ : ghost) (st : c04_state) (cx : c10_state) (i : nat) (hd : handle) : Prop :=
+Definition hx (γ : ghost) (cx : c10_state) (i : nat) (hd : handle) : Prop :=
   (forall m, h_mem hd = Some m -> vbound γ cx i (mnames m)) /\
   match h_pc hd with
-  | HDead => True
-  | HIdle => (p_clr P = true -> assoc i (cx_pending cx) = None) /\
-             exists ss, wf_script P ss (h_script hd) = true /\ flags_ok cx i (h_mem hd) ss
-  | HRun o p => hrun P γ st cx i o (h_mem hd) (h_script hd) p
+  | HRun o p => hrun γ cx i o (h_mem hd) p
+  | _ => True
   end.
 
 Definition XG (γ : ghost) (s : fs) (st : c04_state) (cx : c10_state) : Prop :=
   cx_commits cx = c4_commits st /\
-  In (listed_fs s) (cx_versions cx) /\ In [] (cx_versions cx) /\
+  (forall i, assoc i (cx_pending cx) = assoc i (c4_pending st)) /\
+  In (listed_fs s) (cx_versions cx) /\
   (forall v, In v (cx_versions cx) -> ver_ok γ (cx_commits cx) v) /\
   (forall i k, assoc i (cx_seen cx) = Some k -> k <= length (cx_commits cx)).
 
-Definition XInv (P : pol) (γ : ghost) (w : world) (st : c04_state) (cx : c10_state) : Prop :=
+Definition XInv (γ : ghost) (w : world) (st : c04_state) (cx : c10_state) : Prop :=
   XG γ (w_fs w) st cx /\
-  forall i hd, nth_error (w_handles w) i = Some hd -> hx P γ st cx i hd.
+  forall i hd, nth_error (w_handles w) i = Some hd -> hx γ cx i hd.
 
-Lemma xinv_set : forall P γ s st cx hs h x,
+Lemma xinv_set : forall γ s st cx hs h x,
   XG γ s st cx ->
-  (forall i hd, i <> h -> nth_error hs i = Some hd -> hx P γ st cx i hd) ->
-  hx P γ st cx h x ->
-  XInv P γ {| w_fs := s; w_handles := set_handle h x hs |} st cx.
+  (forall i hd, i <> h -> nth_error hs i = Some hd -> hx γ cx i hd) ->
+  hx γ cx h x ->
+  XInv γ {| w_fs := s; w_handles := set_handle h x hs |} st cx.
 Proof.
-  intros P γ s st cx hs h x HG Ho Hx. split; [exact HG|].
+  intros γ s st cx hs h x HG Ho Hx. split; [exact HG|].
   cbn [w_fs w_handles]. intros i hd E. destruct (Nat.eq_dec i h) as [->|Hne].
   - apply nth_set_eq in E. subst. exact Hx.
   - rewrite nth_set_neq in E by exact Hne. apply Ho; assumption.
@@ -788,7 +539,7 @@ Qed.
 Lemma txsm_vtx : forall γ m, memok γ m -> txsm m = vtx γ (mnames m).
 Proof.
   intros γ m. induction m as [|[n f] m IH]; intros H; [reflexivity|].
-  cbn [txsm vtx mnames map fst snd flat_map]. 
+  cbn [txsm vtx mnames map fst snd flat_map].
   rewrite (proj1 (H n f (or_introl eq_refl))). f_equal.
   apply IH. intros n' f' Hin. apply H. right. exact Hin.
 Qed.
@@ -804,68 +555,46 @@ Proof.
   rewrite (vtx_frame _ _ _ _ v HG HF) by (apply (Hv v A)). lia.
 Qed.
 
-Lemma hx_other : forall P γ s γ' s' st st' cx cx' i hd,
+Lemma hx_other : forall γ s γ' s' cx cx' i hd,
   GI γ s -> frame γ s γ' s' ->
   (forall v, In v (cx_versions cx) -> ver_ok γ (cx_commits cx) v) ->
   incl (cx_versions cx) (cx_versions cx') ->
   assoc i (cx_seen cx') = assoc i (cx_seen cx) ->
-  assoc i (cx_pending cx') = assoc i (cx_pending cx) ->
-  assoc i (c4_pending st') = assoc i (c4_pending st) ->
-  hx P γ st cx i hd -> hx P γ' st' cx' i hd.
+  hx γ cx i hd -> hx γ' cx' i hd.
 Proof.
-  intros P γ s γ' s' st st' cx cx' i hd HG HF Hv Hi Es Ep E4 [Hm Hpc].
+  intros γ s γ' s' cx cx' i hd HG HF Hv Hi Es [Hm Hpc].
   assert (Hl : lowb cx' i <= lowb cx i) by (unfold lowb; rewrite Es; lia).
   assert (Hvb : forall v, vbound γ cx i v -> vbound γ' cx' i v)
     by (intros v; apply (vbound_mono _ _ _ _ _ _ _ _ HG HF Hv Hi Hl)).
   split; [intros m E; apply Hvb, Hm; exact E|].
-  destruct (h_pc hd) as [|o p|]; [| |exact I].
-  - destruct Hpc as [A [ss [B (C1 & C2 & C3)]]]. split; [rewrite Ep; exact A|].
-    exists ss. split; [exact B|]. split; [exact C1|]. rewrite Es, Ep. split; assumption.
-  - destruct Hpc as (rd & ss' & A & B & C & D & (F1 & F2 & F3 & F4 & F5)).
-    exists rd, ss'. split; [exact A|]. split; [intros v Hin; apply Hvb, B; exact Hin|].
-    split; [rewrite Ep, E4; exact C|]. split; [exact D|].
-    unfold after_ok. rewrite Es, Ep. repeat split; assumption.
+  destruct (h_pc hd) as [|o p|]; [exact I| |exact I].
+  destruct Hpc as (rd & A & B). exists rd. split; [exact A|]. intros v Hin. apply Hvb, B. exact Hin.
 Qed.
-
-Lemma ret_allowed_RErr : forall o, ret_allowed o RErr = false.
-Proof. destruct o; reflexivity. Qed.
-
-Lemma apiop_eq_ARead : forall o, o = ARead \/ o <> ARead.
-Proof. destruct o; try (right; discriminate). left. reflexivity. Qed.
-
-Lemma assoc_cons_eq : forall h v l, assoc h ((h, v) :: l) = Some v.
-Proof. intros. cbn. rewrite Nat.eqb_refl. reflexivity. Qed.
-Lemma assoc_cons_neq : forall i h (v : nat) l, i <> h -> assoc i ((h, v) :: l) = assoc i l.
-Proof. intros. cbn. destruct (Nat.eqb_spec i h); [congruence|reflexivity]. Qed.
 
 (* ---------------- the end of a call ---------------- *)
 
-Lemma x_finish : forall P γ s st cx hs h o m0 m r script,
+Lemma x_finish : forall γ s st cx hs h o m0 m r script,
   GI γ s -> XG γ s st cx ->
-  (forall i hd, i <> h -> nth_error hs i = Some hd -> hx P γ st cx i hd) ->
-  hrun P γ st cx h o m0 script (Ret (m, r)) ->
+  (forall i hd, i <> h -> nth_error hs i = Some hd -> hx γ cx i hd) ->
+  hrun γ cx h o m0 (Ret (m, r)) ->
   (forall mm, m0 = Some mm -> vbound γ cx h (mnames mm) /\ memok γ mm) ->
-  ret_allowed o r = true ->
   exists cx',
-    XInv P γ {| w_fs := s; w_handles := set_handle h {| h_mem := m; h_pc := HIdle; h_script := script |} hs |}
+    XInv γ {| w_fs := s; w_handles := set_handle h {| h_mem := m; h_pc := HIdle; h_script := script |} hs |}
          (st_ret h st) cx' /\
-    forall rest, c10g_loop P false cx (finish_events h o m r ++ rest) = c10g_loop P false cx' rest.
+    forall rest, c10_loop false cx (finish_events h o m r ++ rest) = c10_loop false cx' rest.
 Proof.
-  intros P γ s st cx hs h o m0 m r script HG (X1 & X2 & X3 & X4 & X5) Ho
-         (rd & ss' & Hq & Hrd & Hpe & Hwf & (F1 & F2 & F3 & F4 & F5)) Hm0 Hra.
-  cbn [okv] in Hq. destruct Hq as [Hq|(Q1 & Q2 & Q3)].
-  { cbn [snd] in Hq. subst r. rewrite ret_allowed_RErr in Hra. discriminate. }
-  cbn [fst snd] in *.
-  (* the others, for any new state that leaves them alone *)
+  intros γ s st cx hs h o m0 m r script HG (X1 & Xp & X2 & X4 & X5) Ho (rd & Hq & Hrd) Hm0.
+  cbn [okv] in Hq. destruct Hq as (Q2 & Q3). cbn [fst snd] in *.
+  assert (Hpend : forall c0, cx_pending c0 = cx_pending cx ->
+            forall i, assoc i (cx_pending (cx_clr h c0)) = assoc i (c4_pending (st_ret h st))).
+  { intros c0 E i. cbn [cx_clr cx_pending st_ret c4_pending]. rewrite E. apply assoc_unassoc_cong. apply Xp. }
   assert (Hoth : forall cx', cx_versions cx' = cx_versions cx ->
             (forall i, i <> h -> assoc i (cx_seen cx') = assoc i (cx_seen cx)) ->
-            (forall i, i <> h -> assoc i (cx_pending cx') = assoc i (cx_pending cx)) ->
-            forall i hd, i <> h -> nth_error hs i = Some hd -> hx P γ (st_ret h st) cx' i hd).
-  { intros cx' Ev Es Ep i hd Hne E.
-    apply hx_other with (γ := γ) (s := s) (s' := s) (st := st) (cx := cx); auto.
+            forall i hd, i <> h -> nth_error hs i = Some hd -> hx γ cx' i hd).
+  { intros cx' Ev Es i hd Hne E.
+    apply hx_other with (γ := γ) (s := s) (s' := s) (cx := cx); auto.
     - apply frame_refl.
-    - rewrite Ev. apply incl_refl.
-    - cbn. apply assoc_unassoc_neq. exact Hne. }
+    - rewrite Ev. apply incl_refl. }
   destruct (apiop_eq_ARead o) as [->|Hnr].
   - (* a read *)
     specialize (Q3 eq_refl). destruct m0 as [mm|].
@@ -876,196 +605,78 @@ Proof.
       set (n := length (txsm mm)) in *.
       assert (Hn : n <= length (cx_commits cx)) by (apply prefix_length; exact Hpre).
       assert (Etx : txsm mm = firstn n (cx_commits cx)) by (apply prefix_firstn; exact Hpre).
-      exists (cx_clr P h (cx_read h n cx)). split.
+      exists (cx_clr h (cx_read h n cx)). split.
       * apply xinv_set.
-        -- unfold XG. rewrite cx_clr_commits, cx_clr_versions, cx_clr_seen. cbn [cx_commits cx_versions cx_seen cx_read st_ret c4_commits].
-           repeat split; auto; try apply X4; auto.
+        -- unfold XG. cbn [cx_clr cx_commits cx_versions cx_seen cx_read st_ret c4_commits].
+           split; [exact X1|]. split; [apply (Hpend (cx_read h n cx)); reflexivity|]. split; [exact X2|].
+           split; [exact X4|].
            intros i k E. destruct (Nat.eq_dec i h) as [->|Hne].
            ++ rewrite assoc_cons_eq in E. inversion E; subst. exact Hn.
            ++ rewrite assoc_cons_neq, assoc_unassoc_neq in E by exact Hne. eapply X5; eauto.
-        -- apply Hoth.
-           ++ rewrite cx_clr_versions. reflexivity.
-           ++ intros i Hne. rewrite cx_clr_seen. cbn [cx_seen cx_read]. rewrite assoc_cons_neq, assoc_unassoc_neq by exact Hne. reflexivity.
-           ++ intros i Hne. rewrite cx_clr_pending_other by exact Hne. reflexivity.
-        -- split.
-           ++ cbn [h_mem]. intros m E. inversion E; subst m. split.
-              ** rewrite cx_clr_versions. exact V1.
-              ** unfold lowb. rewrite cx_clr_seen. cbn [cx_seen cx_read]. rewrite assoc_cons_eq.
-                 rewrite <- (txsm_vtx _ _ Hmok). fold n. lia.
-           ++ cbn [h_pc h_script h_mem]. split; [apply cx_clr_pending_self|].
-              exists ss'. split; [exact Hwf|]. split; [rewrite F1; reflexivity|]. split.
-              ** intros _. apply F3; [reflexivity|discriminate].
-              ** intro E. apply F4. apply cx_clr_pending_some in E. exact E.
-      * intros rest. rewrite Etx. apply c10g_finish_read; [exact V2|exact Hn|exact V1].
+        -- apply Hoth; [reflexivity|].
+           intros i Hne. cbn [cx_clr cx_seen cx_read]. rewrite assoc_cons_neq, assoc_unassoc_neq by exact Hne. reflexivity.
+        -- split; [|exact I].
+           cbn [h_mem]. intros m E. inversion E; subst m. split; [exact V1|].
+           unfold lowb. cbn [cx_clr cx_seen cx_read]. rewrite assoc_cons_eq.
+           rewrite <- (txsm_vtx _ _ Hmok). fold n. lia.
+      * intros rest. rewrite Etx. apply c10_finish_read; [exact V2|exact Hn|exact V1].
     + inversion Q3; subst m r. clear Q3.
-      exists (cx_clr P h cx). split.
+      exists (cx_clr h cx). split.
       * apply xinv_set.
-        -- unfold XG. rewrite cx_clr_commits, cx_clr_versions, cx_clr_seen. repeat split; auto; apply X4; auto.
-        -- apply Hoth.
-           ++ apply cx_clr_versions.
-           ++ intros i Hne. rewrite cx_clr_seen. reflexivity.
-           ++ intros i Hne. apply cx_clr_pending_other. exact Hne.
-        -- split; [cbn; intros; discriminate|].
-           cbn [h_pc h_script h_mem]. split; [apply cx_clr_pending_self|].
-           exists ss'. split; [exact Hwf|]. split; [rewrite F1; reflexivity|]. rewrite cx_clr_seen. split.
-           ** exact F2.
-           ** intro E. apply F4. apply cx_clr_pending_some in E. exact E.
-      * intros rest. apply c10g_finish_nostack. apply F5; reflexivity.
+        -- unfold XG. cbn [cx_clr cx_commits cx_versions cx_seen st_ret c4_commits].
+           split; [exact X1|]. split; [apply (Hpend cx); reflexivity|]. repeat split; auto; apply X4; auto.
+        -- apply Hoth; reflexivity.
+        -- split; [cbn; intros; discriminate|exact I].
+      * intros rest. apply c10_finish_nostack.
   - (* any other call *)
-    exists (cx_clr P h cx). split.
+    exists (cx_clr h cx). split.
     + apply xinv_set.
-      * unfold XG. rewrite cx_clr_commits, cx_clr_versions, cx_clr_seen. repeat split; auto; apply X4; auto.
-      * apply Hoth.
-        -- apply cx_clr_versions.
-        -- intros i Hne. rewrite cx_clr_seen. reflexivity.
-        -- intros i Hne. apply cx_clr_pending_other. exact Hne.
-      * split.
-        -- cbn [h_mem]. intros mm E. destruct (Hrd _ (Q2 mm E)) as [A B]. split.
-           ++ rewrite cx_clr_versions. exact A.
-           ++ unfold lowb in *. rewrite cx_clr_seen. exact B.
-        -- cbn [h_pc h_script h_mem]. split; [apply cx_clr_pending_self|].
-           exists ss'. split; [exact Hwf|]. split; [rewrite F1, Q1; reflexivity|]. rewrite cx_clr_seen. split.
-           ++ exact F2.
-           ++ intro E. apply F4. apply cx_clr_pending_some in E. exact E.
-    + intros rest. apply c10g_finish_other; [exact Hnr|].
+      * unfold XG. cbn [cx_clr cx_commits cx_versions cx_seen st_ret c4_commits].
+        split; [exact X1|]. split; [apply (Hpend cx); reflexivity|]. repeat split; auto; apply X4; auto.
+      * apply Hoth; reflexivity.
+      * split; [|exact I]. cbn [h_mem]. intros mm E. exact (Hrd _ (Q2 mm E)).
+    + intros rest. apply c10_finish_other; [exact Hnr|].
       intros mm E. apply (Hrd _ (Q2 mm E)).
 Qed.
 
 (* ---------------- the start of a call ---------------- *)
 
-Definition open_new (P : pol) (o : apiop) : bool := p_new P && match o with AOpen => true | _ => false end.
-Definition is_add (o : apiop) : bool := match o with AAdd _ _ | AAddMulti _ _ => true | _ => false end.
+Lemma cx_call_same : forall h o cx,
+  cx_commits (cx_call h o cx) = cx_commits cx /\ cx_seen (cx_call h o cx) = cx_seen cx /\
+  cx_versions (cx_call h o cx) = cx_versions cx.
+Proof. intros. destruct o; repeat split. Qed.
 
-Lemma cx_call_same : forall P h o cx,
-  cx_commits (cx_call P h o cx) = cx_commits cx /\ cx_versions (cx_call P h o cx) = cx_versions cx.
+Lemma vbound_call : forall γ h o cx i v, vbound γ cx i v -> vbound γ (cx_call h o cx) i v.
 Proof.
-  intros. destruct o; try (split; reflexivity). cbn [cx_call]. unfold cx_new. destruct (p_new P); split; reflexivity.
+  intros γ h o cx i v [A B]. destruct (cx_call_same h o cx) as (_ & E2 & E3).
+  split; [rewrite E3; exact A|]. unfold lowb in *. rewrite E2. exact B.
 Qed.
 
-Lemma cx_call_seen_other : forall P h o cx i, i <> h ->
-  assoc i (cx_seen (cx_call P h o cx)) = assoc i (cx_seen cx).
-Proof.
-  intros P h o cx i Hne. destruct o; try reflexivity. cbn [cx_call]. unfold cx_new.
-  destruct (p_new P); [cbn [cx_seen]; apply assoc_unassoc_neq; exact Hne|reflexivity].
-Qed.
-
-Lemma cx_call_seen_self : forall P h o cx,
-  (open_new P o = true /\ assoc h (cx_seen (cx_call P h o cx)) = None) \/
-  (open_new P o = false /\ cx_seen (cx_call P h o cx) = cx_seen cx).
-Proof.
-  intros P h o cx. unfold open_new.
-  destruct o; try (right; split; [destruct (p_new P); reflexivity|reflexivity]).
-  cbn [cx_call]. unfold cx_new. destruct (p_new P).
-  - left. split; [reflexivity|]. cbn [cx_seen]. apply assoc_unassoc_eq.
-  - right. split; reflexivity.
-Qed.
-
-Lemma cx_call_lowb : forall P h o cx i, lowb (cx_call P h o cx) i <= lowb cx i.
-Proof.
-  intros P h o cx i. unfold lowb. destruct (Nat.eq_dec i h) as [->|Hne].
-  - destruct (cx_call_seen_self P h o cx) as [[_ E]|[_ E]]; rewrite E; lia.
-  - rewrite cx_call_seen_other by exact Hne. lia.
-Qed.
-
-Lemma cx_call_pending_nonadd : forall P h o cx, is_add o = false -> cx_pending (cx_call P h o cx) = cx_pending cx.
-Proof.
-  intros P h o cx E. destruct o; try discriminate E; try reflexivity.
-  cbn [cx_call]. unfold cx_new. destruct (p_new P); reflexivity.
-Qed.
-
-Lemma cx_call_pending_other : forall P h o cx i, i <> h ->
-  assoc i (cx_pending (cx_call P h o cx)) = assoc i (cx_pending cx).
-Proof.
-  intros P h o cx i Hne. destruct (is_add o) eqn:Ea; [|rewrite cx_call_pending_nonadd by exact Ea; reflexivity].
-  destruct o; try discriminate Ea;
-    cbn [cx_call cx_pending]; rewrite assoc_cons_neq, assoc_unassoc_neq by exact Hne; reflexivity.
-Qed.
-
-Lemma vbound_call : forall γ P h o cx i v, vbound γ cx i v -> vbound γ (cx_call P h o cx) i v.
-Proof.
-  intros γ P h o cx i v [A B]. destruct (cx_call_same P h o cx) as (_ & E3).
-  split; [rewrite E3; exact A|]. pose proof (cx_call_lowb P h o cx i). lia.
-Qed.
-
-Lemma s_next_facts : forall P o ss ss', s_next P o ss = Some ss' ->
-  s_open ss' = opened_after o (s_open ss) /\
-  (s_read ss = true -> open_new P o = false -> s_read ss' = true) /\
-  (o = ARead -> s_open ss = true -> s_read ss' = true) /\
-  (s_add ss = true -> s_add ss' = true) /\
-  (o = ARead -> s_open ss = false -> p_tol P = true) /\
-  (is_add o = true -> s_add ss' = true).
-Proof.
-  intros P o [so sr sa] ss' E. unfold open_new. cbn [s_open s_read s_add].
-  destruct o, so, sr, sa; cbn in E; try destruct (p_tol P); try destruct (p_clr P); try destruct (p_new P); cbn in E;
-    try discriminate E; inversion E; subst ss'; cbn; repeat split; auto; try discriminate.
-Qed.
-
-Lemma x_call : forall P att γ s st cx hs h o m0 rest ss,
+Lemma x_call : forall att γ s st cx hs h o m0,
   GI γ s -> XG γ s st cx ->
-  (forall i hd, i <> h -> nth_error hs i = Some hd -> hx P γ st cx i hd) ->
+  (forall i hd, i <> h -> nth_error hs i = Some hd -> hx γ cx i hd) ->
   (forall mm, m0 = Some mm -> vbound γ cx h (mnames mm)) ->
-  (p_clr P = true -> assoc h (cx_pending cx) = None) ->
-  wf_script P ss (o :: rest) = true -> flags_ok cx h m0 ss ->
-  assoc h (c4_pending st) = None ->
-  XG γ s (st_call h o st) (cx_call P h o cx) /\
-  (forall i hd, i <> h -> nth_error hs i = Some hd -> hx P γ (st_call h o st) (cx_call P h o cx) i hd) /\
-  hrun P γ (st_call h o st) (cx_call P h o cx) h o m0 rest (call_prog att o m0) /\
-  (forall mm, m0 = Some mm -> vbound γ (cx_call P h o cx) h (mnames mm)).
+  XG γ s (st_call h o st) (cx_call h o cx) /\
+  (forall i hd, i <> h -> nth_error hs i = Some hd -> hx γ (cx_call h o cx) i hd) /\
+  hrun γ (cx_call h o cx) h o m0 (call_prog att o m0) /\
+  (forall mm, m0 = Some mm -> vbound γ (cx_call h o cx) h (mnames mm)).
 Proof.
-  intros P att γ s st cx hs h o m0 rest ss HG (X1 & X2 & X3 & X4 & X5) Ho Hm Hclr Hwf (L1 & L2 & L3) H4.
-  destruct (cx_call_same P h o cx) as (E1 & E3).
-  cbn [wf_script] in Hwf. destruct (s_next P o ss) as [ss'|] eqn:En; [|discriminate].
+  intros att γ s st cx hs h o m0 HG (X1 & Xp & X2 & X4 & X5) Ho Hm.
+  destruct (cx_call_same h o cx) as (E1 & E2 & E3).
   split; [|split; [|split]].
-  - unfold XG. rewrite E1, E3, st_call_commits. split; [exact X1|]. split; [exact X2|]. split; [exact X3|].
-    split; [exact X4|]. intros i k E. destruct (Nat.eq_dec i h) as [->|Hne].
-    + destruct (cx_call_seen_self P h o cx) as [[_ E']|[_ E']]; rewrite E' in E; [discriminate|eapply X5; eauto].
-    + rewrite cx_call_seen_other in E by exact Hne. eapply X5; eauto.
-  - intros i hd Hne E. destruct (@st_call_other i h o st Hne) as [A B].
-    apply hx_other with (γ := γ) (s := s) (s' := s) (st := st) (cx := cx); auto.
+  - unfold XG. rewrite E1, E2, E3, st_call_commits. split; [exact X1|]. split; [|repeat split; auto; apply X4; auto].
+    intro i. destruct o; try apply Xp; cbn [cx_call st_call cx_pending c4_pending];
+      (destruct (Nat.eq_dec i h) as [->|Hne];
+       [rewrite !assoc_cons_eq; reflexivity|rewrite !assoc_cons_neq by exact Hne; apply assoc_unassoc_cong, Xp]).
+  - intros i hd Hne E.
+    apply hx_other with (γ := γ) (s := s) (s' := s) (cx := cx); auto.
     + apply frame_refl.
     + rewrite E3. apply incl_refl.
-    + apply cx_call_seen_other. exact Hne.
-    + apply cx_call_pending_other. exact Hne.
-  - exists (rd_init o m0), ss'. split; [apply call_prog_okv|]. split; [|split; [|split; [exact Hwf|]]].
-    + (* the versions the call starts with *)
-      intros v Hv.
-      assert (Hm' : o <> AOpen -> vbound γ (cx_call P h o cx) h v).
-      { intro Hno. apply vbound_call. destruct m0 as [mm|].
-        - assert (v = mnames mm) by (destruct o; try congruence; cbn [rd_init] in Hv; destruct Hv as [<-|[]]; reflexivity).
-          subst v. apply Hm. reflexivity.
-        - destruct o; try congruence; cbn [rd_init] in Hv; destruct Hv. }
-      destruct o; try (apply Hm'; discriminate).
-      destruct Hv as [<-|[]]. split; [rewrite E3; exact X3|].
-      unfold lowb. destruct (cx_call_seen_self P h AOpen cx) as [[_ E']|[Eo E']]; rewrite E'; [lia|].
-      unfold open_new in Eo. rewrite andb_true_r in Eo.
-      cbn [s_next] in En. rewrite Eo in En. cbn [negb] in En. rewrite andb_true_r in En.
-      destruct (s_read ss) eqn:Er; [discriminate|].
-      destruct (assoc h (cx_seen cx)) eqn:Es; [|lia].
-      assert (X : false = true) by (apply L2; congruence). discriminate X.
-    + (* the pending transaction *)
-      intro Hmc.
-      assert (Hnone : o = ACompactAll \/ o = AExpire ->
-                assoc h (cx_pending (cx_call P h o cx)) = assoc h (c4_pending (st_call h o st))).
-      { intro Hoo. assert (Ec : cx_call P h o cx = cx) by (destruct Hoo; subst; reflexivity).
-        assert (Et : st_call h o st = st) by (destruct Hoo; subst; reflexivity).
-        rewrite Ec, Et, H4.
-        destruct (p_clr P) eqn:Ep; [apply Hclr; reflexivity|].
-        destruct (assoc h (cx_pending cx)) eqn:Ea; [|reflexivity].
-        assert (Hsa : s_add ss = true) by (apply L3; congruence).
-        destruct Hoo; subst o; cbn [s_next] in En; rewrite Hsa, Ep in En; discriminate. }
-      destruct o; try discriminate Hmc; try (apply Hnone; first [left; reflexivity|right; reflexivity]).
-      cbn [cx_call st_call cx_pending c4_pending]. rewrite !assoc_cons_eq. reflexivity.
-    + (* the script state after the call *)
-      destruct (s_next_facts P o ss ss' En) as (G1 & G2 & G3 & G4 & G5 & G6).
-      unfold after_ok. split; [rewrite G1, L1; reflexivity|].
-      split.
-      { intro E. destruct (cx_call_seen_self P h o cx) as [[_ E']|[Eo E']]; [congruence|].
-        rewrite E' in E. apply G2; [apply L2; exact E|exact Eo]. }
-      split; [intros Eo Em; apply G3; [exact Eo|]; rewrite L1; destruct m0; [reflexivity|congruence]|].
-      split.
-      * intro E. destruct (is_add o) eqn:Ea; [apply G6; reflexivity|].
-        apply G4, L3. rewrite cx_call_pending_nonadd in E by exact Ea. exact E.
-      * intros Eo Em. apply G5; [exact Eo|]. rewrite L1, Em. reflexivity.
+    + rewrite E2. reflexivity.
+  - exists (rd_init o m0). split; [apply call_prog_okv|].
+    intros v Hv. apply vbound_call.
+    destruct o; cbn [rd_init] in Hv; try destruct Hv;
+      (destruct m0 as [mm|]; [destruct Hv as [<-|[]]; apply Hm; reflexivity|destruct Hv]).
   - intros mm E. apply vbound_call. apply Hm. exact E.
 Qed.
 
@@ -1075,31 +686,30 @@ Lemma apply_req_readlist : forall so c h s s' rs fr,
   apply_req so c h QReadList s = (s', rs, fr) -> s' = s /\ lnames rs = listed_fs s.
 Proof. intros so c h s s' rs fr H. cbn in H. inversion H; subst. split; reflexivity. Qed.
 
-Lemma x_req : forall P so c h γ s st cx lg q γ' s' rs fr o m0 script k (hs : list handle),
+Lemma x_req : forall so c h γ s st cx lg q γ' s' rs fr o m0 k (hs : list handle),
   GI γ s -> XG γ s st cx -> c4_commits st = txs_of γ s ->
   apply_req so c h q s = (s', rs, fr) ->
   step_post h γ s lg q γ' s' rs fr ->
   assoc h (c4_pending st) = pd lg ->
-  hrun P γ st cx h o m0 script (Op q k) ->
+  hrun γ cx h o m0 (Op q k) ->
   (forall mm, m0 = Some mm -> vbound γ cx h (mnames mm)) ->
-  (forall i hd, i <> h -> nth_error hs i = Some hd -> hx P γ st cx i hd) ->
+  (forall i hd, i <> h -> nth_error hs i = Some hd -> hx γ cx i hd) ->
   XG γ' s' (st_req q h st) (cx_snap (listed_fs s') (cx_req q h cx)) /\
-  hrun P γ' (st_req q h st) (cx_snap (listed_fs s') (cx_req q h cx)) h o m0 script (k rs) /\
+  hrun γ' (cx_snap (listed_fs s') (cx_req q h cx)) h o m0 (k rs) /\
   (forall mm, m0 = Some mm -> vbound γ' (cx_snap (listed_fs s') (cx_req q h cx)) h (mnames mm)) /\
   (forall i hd, i <> h -> nth_error hs i = Some hd ->
-     hx P γ' (st_req q h st) (cx_snap (listed_fs s') (cx_req q h cx)) i hd) /\
-  (forall rest, c10g_loop P false cx (req_event h q rs fr :: ESnap (snapshot_of s') :: rest)
-                = c10g_loop P false (cx_snap (listed_fs s') (cx_req q h cx)) rest).
+     hx γ' (cx_snap (listed_fs s') (cx_req q h cx)) i hd) /\
+  (forall rest, c10_loop false cx (req_event h q rs fr :: ESnap (snapshot_of s') :: rest)
+                = c10_loop false (cx_snap (listed_fs s') (cx_req q h cx)) rest).
 Proof.
-  intros P so c h γ s st cx lg q γ' s' rs fr o m0 script k hs HG (X1 & X2 & X3 & X4 & X5) Hc Ha SP Hpd
-         (rd & ss' & Hq & Hrd & Hpe & Hwf & (F1 & F2 & F3 & F4 & F5)) Hm Ho.
-  cbn [okv] in Hq. destruct Hq as [Hmc Hk].
+  intros so c h γ s st cx lg q γ' s' rs fr o m0 k hs HG (X1 & Xp & X2 & X4 & X5) Hc Ha SP Hpd
+         (rd & Hk & Hrd) Hm Ho.
+  cbn [okv] in Hk.
   set (st1 := st_req q h st). set (cx1 := cx_snap (listed_fs s') (cx_req q h cx)).
   pose proof (sp_GI SP) as HG'. pose proof (sp_frame SP) as HF.
-  (* the commit sequences agree *)
   assert (Ecm : cx_commits (cx_req q h cx) = c4_commits st1).
   { unfold st1, cx_req, st_req. destruct (is_commit q) eqn:Eq; [|exact X1].
-    unfold cx_commit, st_commit. rewrite (Hpe (Hmc eq_refl)).
+    unfold cx_commit, st_commit. rewrite (Xp h).
     destruct (assoc h (c4_pending st)); cbn; rewrite X1; reflexivity. }
   assert (Hc1 : c4_commits st1 = txs_of γ' s').
   { rewrite (sp_txs SP). unfold st1, st_req. destruct (is_commit q).
@@ -1119,8 +729,10 @@ Proof.
     apply X5 in E. change (cx_commits cx1) with (cx_commits (cx_req q h cx)). rewrite Eext, app_length. lia. }
   assert (Hnew : vtx γ' (listed_fs s') = cx_commits cx1) by (rewrite Ec1, Hc1; reflexivity).
   split; [|split; [|split; [|split]]].
-  - (* the global part *)
-    unfold XG. split; [exact Ec1|]. split; [apply cx_snap_in|]. split; [apply Ev1; exact X3|]. split.
+  - unfold XG. split; [exact Ec1|]. split; [|split; [apply cx_snap_in|split]].
+    + intro i. unfold cx1, st1. cbn [cx_snap cx_pending]. unfold cx_req, st_req.
+      destruct (is_commit q); [|apply Xp]. unfold cx_commit, st_commit. rewrite (Xp h).
+      destruct (assoc h (c4_pending st)); cbn [cx_pending c4_pending]; [apply assoc_unassoc_cong|]; apply Xp.
     + intros v Hv. apply cx_snap_old in Hv as [->|Hv].
       * split; [intros n Hn; apply (g_seen HG'); exact Hn|]. rewrite Hnew. apply prefix_refl.
       * rewrite cx_req_versions in Hv. destruct (X4 v Hv) as [A B]. split.
@@ -1129,42 +741,31 @@ Proof.
            change (cx_commits cx1) with (cx_commits (cx_req q h cx)). rewrite Eext. apply prefix_app. exact B.
     + intros i k0 E. rewrite Es1 in E. apply X5 in E.
       change (cx_commits cx1) with (cx_commits (cx_req q h cx)). rewrite Eext, app_length. lia.
-  - (* the rest of the call *)
-    exists (rd_step q rs rd), ss'. split; [apply Hk|]. split; [|split; [|split; [exact Hwf|]]].
-    + intros v Hv.
-      assert (Hold : In v rd -> vbound γ' cx1 h v) by (intro X; apply Hvb, Hrd; exact X).
-      destruct q; cbn [rd_step] in Hv; try (apply Hold; exact Hv).
-      destruct Hv as [<-|Hv]; [|apply Hold; exact Hv].
-      destruct (apply_req_readlist _ _ _ _ _ _ _ Ha) as [-> ->].
-      split; [apply cx_snap_in|]. rewrite Hnew. apply Hlen.
-    + intro Hmcc. unfold cx1, st1. cbn [cx_snap cx_pending]. unfold cx_req, st_req.
-      destruct (is_commit q); [|apply Hpe; exact Hmcc].
-      unfold cx_commit, st_commit. rewrite (Hpe Hmcc).
-      destruct (assoc h (c4_pending st)) eqn:E; cbn [cx_pending c4_pending].
-      * rewrite !assoc_unassoc_eq. reflexivity.
-      * rewrite E. apply Hpe. exact Hmcc.
-    + unfold after_ok. rewrite Es1. split; [exact F1|]. split; [exact F2|]. split; [exact F3|]. split; [|exact F5].
-      intro E. apply F4. unfold cx1 in E. cbn [cx_snap cx_pending] in E. apply cx_req_pending_some in E. exact E.
+  - exists (rd_step q rs rd). split; [apply Hk|].
+    intros v Hv.
+    assert (Hold : In v rd -> vbound γ' cx1 h v) by (intro X; apply Hvb, Hrd; exact X).
+    destruct q; cbn [rd_step] in Hv; try (apply Hold; exact Hv).
+    destruct Hv as [<-|Hv]; [|apply Hold; exact Hv].
+    destruct (apply_req_readlist _ _ _ _ _ _ _ Ha) as [-> ->].
+    split; [apply cx_snap_in|]. rewrite Hnew. apply Hlen.
   - intros mm E. apply Hvb, Hm. exact E.
   - intros i hd Hne E.
-    apply hx_other with (γ := γ) (s := s) (s' := s') (st := st) (cx := cx); auto.
-    + rewrite Es1. reflexivity.
-    + unfold cx1. cbn [cx_snap cx_pending]. apply cx_req_pending_other. exact Hne.
-    + unfold st1, st_req. destruct (is_commit q); [apply st_commit_other; exact Hne|reflexivity].
-  - intros rest. apply c10g_req. apply (sp_commit SP).
+    apply hx_other with (γ := γ) (s := s) (s' := s') (cx := cx); auto.
+    rewrite Es1. reflexivity.
+  - intros rest. apply c10_req. apply (sp_commit SP).
 Qed.
 
 (* ---------------- a step, a crash, a run ---------------- *)
 
-Lemma step_x : forall P so att γ w st cx h c w' evs,
-  WInv γ w st -> XInv P γ w st cx -> step so att w h c = (w', evs) ->
-  exists γ' st' cx', WInv γ' w' st' /\ XInv P γ' w' st' cx' /\
-    forall rest, c10g_loop P false cx (evs ++ rest) = c10g_loop P false cx' rest.
+Lemma step_x : forall so att γ w st cx h c w' evs,
+  WInv γ w st -> XInv γ w st cx -> step so att w h c = (w', evs) ->
+  exists γ' st' cx', WInv γ' w' st' /\ XInv γ' w' st' cx' /\
+    forall rest, c10_loop false cx (evs ++ rest) = c10_loop false cx' rest.
 Proof.
-  intros P so att γ w st cx h c w' evs (HG & Hc & Hh) (HXG & Hxh) H. unfold step in H.
+  intros so att γ w st cx h c w' evs (HG & Hc & Hh) (HXG & Hxh) H. unfold step in H.
   assert (Hnop : (w', evs) = (w, []) ->
-            exists γ' st' cx', WInv γ' w' st' /\ XInv P γ' w' st' cx' /\
-              forall rest, c10g_loop P false cx (evs ++ rest) = c10g_loop P false cx' rest).
+            exists γ' st' cx', WInv γ' w' st' /\ XInv γ' w' st' cx' /\
+              forall rest, c10_loop false cx (evs ++ rest) = c10_loop false cx' rest).
   { intro E. inversion E; subst. exists γ, st, cx. split; [split; [exact HG|split; assumption]|].
     split; [split; assumption|]. reflexivity. }
   destruct (nth_error (w_handles w) h) as [hd|] eqn:En; [|apply Hnop; congruence].
@@ -1172,7 +773,7 @@ Proof.
   destruct (Hxh h hd En) as (Hxm & Hxpc).
   assert (Hothers : forall i hd', i <> h -> nth_error (w_handles w) i = Some hd' -> hinv γ (w_fs w) st i hd')
     by (intros i hd' _ E; apply Hh; exact E).
-  assert (Hxothers : forall i hd', i <> h -> nth_error (w_handles w) i = Some hd' -> hx P γ st cx i hd')
+  assert (Hxothers : forall i hd', i <> h -> nth_error (w_handles w) i = Some hd' -> hx γ cx i hd')
     by (intros i hd' _ E; apply Hxh; exact E).
   destruct (h_pc hd) as [|o p|] eqn:Epc; [| |apply Hnop; congruence].
   - (* a call starts *)
@@ -1181,8 +782,7 @@ Proof.
     pose proof (@call_prog_ok att o (h_mem hd) Hmod) as Hok.
     pose proof (@interp_init γ (w_fs w) h o (h_mem hd) HG Hmem) as HI.
     destruct Hpc as [Hp0 Hd0].
-    destruct Hxpc as [Hclr [ss [Hwf Hfl]]].
-    set (st1 := st_call h o st). set (cx1 := cx_call P h o cx).
+    set (st1 := st_call h o st). set (cx1 := cx_call h o cx).
     assert (Hp1 : assoc h (c4_pending st1) = pd (lg_init o (h_mem hd))).
     { unfold st1. destruct o; cbn; try exact Hp0; try discriminate Hmod. rewrite Nat.eqb_refl. reflexivity. }
     assert (Hd1 : assoc h (c4_done st1) = dn (lg_init o (h_mem hd))).
@@ -1194,26 +794,24 @@ Proof.
       - apply frame_refl.
       - apply keepsL_refl.
       - apply keepsT_refl. }
-    destruct (x_call P att γ (w_fs w) st cx (w_handles w) h o (h_mem hd) rest ss HG HXG Hxothers Hxm Hclr Hwf Hfl Hp0)
+    destruct (x_call att γ (w_fs w) st cx (w_handles w) h o (h_mem hd) HG HXG Hxothers Hxm)
       as (XG1 & XO1 & XR1 & XM1).
     fold st1 cx1 in XG1, XO1, XR1, XM1.
     destruct (call_prog att o (h_mem hd)) as [[m r]|q k] eqn:Ecp.
     + inversion H; subst w' evs. clear H.
       destruct (@finish_inv γ (w_fs w) st1 (w_handles w) h o m r _ rest HG Hc1 Ho1 HI Hok Hd1 Hrest)
         as (W & _ & _).
-      assert (Hra : ret_allowed o r = true) by (cbn [ok] in Hok; apply Hok).
-      destruct (x_finish P γ (w_fs w) st1 cx1 (w_handles w) h o (h_mem hd) m r rest HG XG1 XO1 XR1) as [cx' [XI XL]].
+      destruct (x_finish γ (w_fs w) st1 cx1 (w_handles w) h o (h_mem hd) m r rest HG XG1 XO1 XR1) as [cx' [XI XL]].
       { intros mm E. split; [apply XM1; exact E|apply Hmem; exact E]. }
-      { exact Hra. }
       exists γ, (st_ret h st1), cx'. split; [exact W|]. split; [exact XI|].
-      intros rest'. cbn [app]. rewrite c10g_call. apply XL.
+      intros rest'. cbn [app]. rewrite c10_call. apply XL.
     + inversion H; subst w' evs. clear H.
       exists γ, st1, cx1. split; [|split].
       * apply winv_set; auto.
         split; [exact Hrest|]. split; [exact Hmem|]. cbn [h_pc].
         exists (lg_init o (h_mem hd)). auto.
-      * apply xinv_set; auto. split; [exact XM1|]. cbn [h_pc h_mem h_script]. exact XR1.
-      * intros rest'. cbn [app]. apply c10g_call.
+      * apply xinv_set; auto. split; [exact XM1|]. cbn [h_pc h_mem]. exact XR1.
+      * intros rest'. cbn [app]. apply c10_call.
   - (* inside a call *)
     destruct Hpc as (lg & HI & Hok & Hp0 & Hd0).
     destruct p as [[m r]|q k].
@@ -1221,11 +819,9 @@ Proof.
       inversion H; subst w' evs. clear H.
       destruct (@finish_inv γ (w_fs w) st (w_handles w) h o m r lg (h_script hd) HG Hc Hothers HI Hok Hd0 Hscr)
         as (W & _ & _).
-      assert (Hra : ret_allowed o r = true) by (cbn [ok] in Hok; apply Hok).
-      destruct (x_finish P γ (w_fs w) st cx (w_handles w) h o (h_mem hd) m r (h_script hd) HG HXG Hxothers Hxpc)
+      destruct (x_finish γ (w_fs w) st cx (w_handles w) h o (h_mem hd) m r (h_script hd) HG HXG Hxothers Hxpc)
         as [cx' [XI XL]].
       { intros mm E. split; [apply Hxm; exact E|apply Hmem; exact E]. }
-      { exact Hra. }
       exists γ, (st_ret h st), cx'. split; [exact W|]. split; [exact XI|exact XL].
     + (* one file-system operation *)
       destruct (apply_req so c h q (w_fs w)) as [[s' rs] fr] eqn:Ea.
@@ -1254,20 +850,18 @@ Proof.
         - apply (sp_keepT SP). exact Hne.
         - unfold st1, st_req. destruct (is_commit q); [apply st_commit_other; exact Hne|reflexivity].
         - unfold st1, st_req. destruct (is_commit q); [apply st_commit_other; exact Hne|reflexivity]. }
-      destruct (x_req P so c h γ (w_fs w) st cx lg q γ' s' rs fr o (h_mem hd) (h_script hd) k (w_handles w)
+      destruct (x_req so c h γ (w_fs w) st cx lg q γ' s' rs fr o (h_mem hd) k (w_handles w)
                       HG HXG Hc Ea SP Hp0 Hxpc Hxm Hxothers) as (XG1 & XR1 & XM1 & XO1 & XL1).
-      fold st1 in XG1, XR1, XO1.
+      fold st1 in XG1.
       set (cx1 := cx_snap (listed_fs s') (cx_req q h cx)) in *.
       destruct (k rs) as [[m r]|q' k'] eqn:Ek.
       * inversion H; subst w' evs. clear H. cbn [ok] in Hk.
         destruct (@finish_inv γ' s' st1 (w_handles w) h o m r _ (h_script hd) (sp_GI SP) Hc1 Ho1 (sp_interp SP) Hk Hd1 Hscr)
           as (W & _ & _).
-        assert (Hra : ret_allowed o r = true) by apply Hk.
-        destruct (x_finish P γ' s' st1 cx1 (w_handles w) h o (h_mem hd) m r (h_script hd) (sp_GI SP) XG1 XO1 XR1)
+        destruct (x_finish γ' s' st1 cx1 (w_handles w) h o (h_mem hd) m r (h_script hd) (sp_GI SP) XG1 XO1 XR1)
           as [cx' [XI XL]].
         { intros mm E. split; [apply XM1; exact E|].
           eapply memok_stable; [exact HG|apply (sp_frame SP)|]. apply Hmem. exact E. }
-        { exact Hra. }
         exists γ', (st_ret h st1), cx'. split; [exact W|]. split; [exact XI|].
         intros rest. cbn [app]. rewrite XL1. apply XL.
       * inversion H; subst w' evs. clear H.
@@ -1277,16 +871,16 @@ Proof.
            ++ split; [exact Hscr|]. split.
               ** cbn [h_mem]. intros mm E. eapply memok_stable; [exact HG|apply (sp_frame SP)|]. apply Hmem. exact E.
               ** cbn [h_pc]. exists (nxt lg q rs). split; [apply (sp_interp SP)|]. auto.
-        -- apply xinv_set; auto. split; [exact XM1|]. cbn [h_pc h_mem h_script]. exact XR1.
+        -- apply xinv_set; auto. split; [exact XM1|]. cbn [h_pc h_mem]. exact XR1.
         -- intros rest. cbn [app]. apply XL1.
 Qed.
 
-Lemma crash_x : forall P γ w st cx h w' evs,
-  WInv γ w st -> XInv P γ w st cx -> crash w h = (w', evs) ->
-  WInv γ w' st /\ XInv P γ w' st cx /\
-  forall rest, c10g_loop P false cx (evs ++ rest) = c10g_loop P false cx rest.
+Lemma crash_x : forall γ w st cx h w' evs,
+  WInv γ w st -> XInv γ w st cx -> crash w h = (w', evs) ->
+  WInv γ w' st /\ XInv γ w' st cx /\
+  forall rest, c10_loop false cx (evs ++ rest) = c10_loop false cx rest.
 Proof.
-  intros P γ w st cx h w' evs HW (HXG & Hxh) H.
+  intros γ w st cx h w' evs HW (HXG & Hxh) H.
   destruct (@crash_inv γ w st h w' evs HW H) as (W & _ & _).
   split; [exact W|]. unfold crash in H.
   destruct (nth_error (w_handles w) h) as [hd|] eqn:En.
@@ -1295,38 +889,37 @@ Proof.
   - inversion H; subst w' evs. split; [split; assumption|reflexivity].
 Qed.
 
-Lemma run_x : forall P so att sched γ w st cx w' evs,
-  WInv γ w st -> XInv P γ w st cx -> run so att w sched = (w', evs) ->
-  c10g_loop P false cx evs = true.
+Lemma run_x : forall so att sched γ w st cx w' evs,
+  WInv γ w st -> XInv γ w st cx -> run so att w sched = (w', evs) ->
+  c10_loop false cx evs = true.
 Proof.
-  intros P so att. induction sched as [|[h c|h] sched IH]; intros γ w st cx w' evs HW HX H; cbn [run] in H.
+  intros so att. induction sched as [|[h c|h] sched IH]; intros γ w st cx w' evs HW HX H; cbn [run] in H.
   - inversion H; subst. reflexivity.
   - destruct (step so att w h c) as [w1 e1] eqn:E1.
     destruct (run so att w1 sched) as [w2 e2] eqn:E2. inversion H; subst w' evs. clear H.
-    destruct (step_x P so att γ w st cx h c w1 e1 HW HX E1) as (γ' & st' & cx' & HW' & HX' & XL).
+    destruct (step_x so att γ w st cx h c w1 e1 HW HX E1) as (γ' & st' & cx' & HW' & HX' & XL).
     rewrite XL. eapply IH; eauto.
   - destruct (crash w h) as [w1 e1] eqn:E1.
     destruct (run so att w1 sched) as [w2 e2] eqn:E2. inversion H; subst w' evs. clear H.
-    destruct (crash_x P γ w st cx h w1 e1 HW HX E1) as (HW' & HX' & XL).
+    destruct (crash_x γ w st cx h w1 e1 HW HX E1) as (HW' & HX' & XL).
     rewrite XL. eapply IH; eauto.
 Qed.
 
 (* ------------------------------------------------------------------ *)
-(* 6. the initial world, the theorems                                  *)
+(* 5. the initial world, the theorems                                  *)
 (* ------------------------------------------------------------------ *)
 
 Definition cx_init (tabs : list (nat * tfile)) : c10_state :=
   {| cx_commits := snap_txs (snapshot_of (init_fs tabs)); cx_pending := []; cx_seen := [];
      cx_versions := [listed (snapshot_of (init_fs tabs)); []] |}.
 
-Lemma XInv_init : forall P tabs scripts,
-  init_ok tabs -> Forall (fun s => c10_script P s = true) scripts ->
-  XInv P (ghost0 tabs) (init_world tabs scripts) (st_init tabs) (cx_init tabs).
+Lemma XInv_init : forall tabs scripts,
+  init_ok tabs -> XInv (ghost0 tabs) (init_world tabs scripts) (st_init tabs) (cx_init tabs).
 Proof.
-  intros P tabs scripts Hi Hs. pose proof (@GI_init tabs Hi) as HG.
+  intros tabs scripts Hi. pose proof (@GI_init tabs Hi) as HG.
   split.
-  - unfold XG. cbn [cx_init cx_commits cx_versions cx_seen st_init c4_commits init_world w_fs].
-    split; [reflexivity|]. split; [left; reflexivity|]. split; [right; left; reflexivity|]. split.
+  - unfold XG. cbn [cx_init cx_commits cx_versions cx_seen cx_pending st_init c4_commits c4_pending init_world w_fs].
+    split; [reflexivity|]. split; [reflexivity|]. split; [left; reflexivity|]. split.
     + intros v [<-|[<-|[]]].
       * change (listed (snapshot_of (init_fs tabs))) with (listed_fs (init_fs tabs)). split.
         -- intros n Hn. apply (g_seen HG). exact Hn.
@@ -1334,121 +927,30 @@ Proof.
       * split; [intros n []|apply prefix_nil].
     + intros i k E. discriminate E.
   - cbn [init_world w_handles w_fs]. intros i hd E. apply nth_error_In in E.
-    apply in_map_iff in E as [s [<- Hin]]. rewrite Forall_forall in Hs.
-    split; [cbn; intros; discriminate|]. cbn [h_pc h_script h_mem].
-    split; [reflexivity|]. exists (mkS false false false). split; [apply Hs; exact Hin|].
-    repeat split; cbn; congruence.
+    apply in_map_iff in E as [s [<- Hin]].
+    split; [cbn; intros; discriminate|exact I].
 Qed.
 
-Lemma c10g_all_traces : forall P size_oracle attempts tabs scripts sched,
-  init_ok tabs -> Forall (fun s => forallb modelled s = true) scripts ->
-  Forall (fun s => c10_script P s = true) scripts ->
-  c10g_loop P true cx0 (trace_of size_oracle attempts tabs scripts sched) = true.
-Proof.
-  intros P so att tabs scripts sched Hi Hs Hw. unfold trace_of.
-  destruct (run so att (init_world tabs scripts) sched) as [w' evs] eqn:E. cbn [snd].
-  change (c10g_loop P true cx0 (ESnap (snapshot_of (init_fs tabs)) :: evs))
-    with (c10g_loop P false (cx_init tabs) evs).
-  exact (run_x P so att sched _ _ _ _ _ _ (@WInv_init tabs scripts Hi Hs) (XInv_init P tabs scripts Hi Hw) E).
-Qed.
-
-(* property C10 (official predicate): a handle's view is one committed snapshot and stays
-   readable under churn -- for scripts that read only open stacks, do not re-open after a
-   read, and do not compact explicitly after an Add (see section 0 for why) *)
+(* property C10: a handle's view is one committed snapshot and stays readable under churn *)
 Theorem c10_all_traces : forall size_oracle attempts tabs scripts sched,
   init_ok tabs -> Forall (fun s => forallb modelled s = true) scripts ->
-  Forall (fun s => c10_script pol0 s = true) scripts ->
   c10_ok (trace_of size_oracle attempts tabs scripts sched) = true.
 Proof.
-  intros. rewrite c10_ok_pol0. apply c10g_all_traces; assumption.
+  intros so att tabs scripts sched Hi Hs. unfold c10_ok, trace_of.
+  destruct (run so att (init_world tabs scripts) sched) as [w' evs] eqn:E. cbn [snd].
+  change (c10_loop false (cx_init tabs) evs = true).
+  exact (run_x so att sched _ _ _ _ _ _ (@WInv_init tabs scripts Hi Hs) (XInv_init tabs scripts Hi) E).
 Qed.
 
-(* property C06 (official predicate): crash atomicity *)
+(* property C06: crash atomicity (c06_ok = c04_ok && c05_ok && c10_ok, on traces that may contain crashes) *)
 Theorem c06_all_traces : forall size_oracle attempts tabs scripts sched,
   init_ok tabs -> Forall (fun s => forallb modelled s = true) scripts ->
-  Forall (fun s => c10_script pol0 s = true) scripts ->
   c06_ok (trace_of size_oracle attempts tabs scripts sched) = true.
 Proof.
-  intros so att tabs scripts sched Hi Hs Hw. unfold c06_ok.
+  intros so att tabs scripts sched Hi Hs. unfold c06_ok.
   rewrite (@c04_all_traces so att tabs scripts sched Hi Hs), (@c05_all_traces so att tabs scripts sched Hi Hs),
-          (c10_all_traces so att tabs scripts sched Hi Hs Hw). reflexivity.
+          (c10_all_traces so att tabs scripts sched Hi Hs). reflexivity.
 Qed.
-
-(* the repaired predicate: only re-opening after a read on an open stack is excluded *)
-Theorem c10_rep_all_traces : forall size_oracle attempts tabs scripts sched,
-  init_ok tabs -> Forall (fun s => forallb modelled s = true) scripts ->
-  Forall (fun s => c10_script pol1 s = true) scripts ->
-  c10_ok_rep (trace_of size_oracle attempts tabs scripts sched) = true.
-Proof. intros. apply c10g_all_traces; assumption. Qed.
-
-Theorem c06_rep_all_traces : forall size_oracle attempts tabs scripts sched,
-  init_ok tabs -> Forall (fun s => forallb modelled s = true) scripts ->
-  Forall (fun s => c10_script pol1 s = true) scripts ->
-  c06_ok_rep (trace_of size_oracle attempts tabs scripts sched) = true.
-Proof.
-  intros so att tabs scripts sched Hi Hs Hw. unfold c06_ok_rep.
-  rewrite (@c04_all_traces so att tabs scripts sched Hi Hs), (@c05_all_traces so att tabs scripts sched Hi Hs),
-          (c10_rep_all_traces so att tabs scripts sched Hi Hs Hw). reflexivity.
-Qed.
-
-(* the repaired predicate with views monotone per opened stack: every script *)
-Lemma wf_pol2 : forall l ss, wf_script pol2 ss l = true.
-Proof.
-  induction l as [|o l IH]; intros ss; [reflexivity|]. cbn [wf_script].
-  assert (H : exists ss', s_next pol2 o ss = Some ss').
-  { destruct ss as [so sr sa]. destruct o, so, sr, sa; cbn; eexists; reflexivity. }
-  destruct H as [ss' ->]. apply IH.
-Qed.
-
-Theorem c10_rep2_all_traces : forall size_oracle attempts tabs scripts sched,
-  init_ok tabs -> Forall (fun s => forallb modelled s = true) scripts ->
-  c10_ok_rep2 (trace_of size_oracle attempts tabs scripts sched) = true.
-Proof.
-  intros. apply c10g_all_traces; try assumption.
-  apply Forall_forall. intros s _. apply wf_pol2.
-Qed.
-
-Theorem c06_rep2_all_traces : forall size_oracle attempts tabs scripts sched,
-  init_ok tabs -> Forall (fun s => forallb modelled s = true) scripts ->
-  c06_ok_rep2 (trace_of size_oracle attempts tabs scripts sched) = true.
-Proof.
-  intros so att tabs scripts sched Hi Hs. unfold c06_ok_rep2.
-  rewrite (@c04_all_traces so att tabs scripts sched Hi Hs), (@c05_all_traces so att tabs scripts sched Hi Hs),
-          (c10_rep2_all_traces so att tabs scripts sched Hi Hs). reflexivity.
-Qed.
-
-(* the script conditions on examples, and the repaired predicates on the counterexamples of section 0 *)
-Module Examples.
-  Import Refuted.
-  Lemma script_ok0 :
-    c10_script pol0 [AOpen; ACompactAll; AExpire; AAdd 1 true; ARead; AAddEmpty; AAdd 2 false; ARead; AClose; AAdd 3 true] = true.
-  Proof. reflexivity. Qed.
-  Lemma script_ok1 :
-    c10_script pol1 [ARead; AOpen; AAdd 1 true; ACompactAll; ARead; AExpire; AClose; ARead; AAdd 3 true] = true.
-  Proof. reflexivity. Qed.
-  (* the three counterexamples violate exactly one condition each *)
-  Lemma scripts1_bad : forallb (c10_script pol0) scripts1 = false /\ forallb (c10_script pol1) scripts1 = true.
-  Proof. split; reflexivity. Qed.
-  Lemma scripts2_bad : forallb (c10_script pol0) scripts2 = false /\ forallb (c10_script pol1) scripts2 = false.
-  Proof. split; reflexivity. Qed.
-  Lemma scripts3_bad : forallb (c10_script pol0) scripts3 = false /\ forallb (c10_script pol1) scripts3 = true.
-  Proof. split; reflexivity. Qed.
-  (* R1 and R3 are artefacts of the predicate, R2 is not *)
-  Lemma rep_nostack : c10_ok_rep (trace_of so 50 tabs2 scripts1 sched1) = true.
-  Proof. vm_compute. reflexivity. Qed.
-  Lemma rep_pending : c10_ok_rep (trace_of so 50 tabs2 scripts3 sched3) = true.
-  Proof. vm_compute. reflexivity. Qed.
-  Lemma rep_reopen : c10_ok_rep (trace_of so 1 tabs2 scripts2 sched2) = false.
-  Proof. vm_compute. reflexivity. Qed.
-  Lemma rep2_reopen : c10_ok_rep2 (trace_of so 1 tabs2 scripts2 sched2) = true.
-  Proof. vm_compute. reflexivity. Qed.
-End Examples.
 
 Print Assumptions c10_all_traces.
 Print Assumptions c06_all_traces.
-Print Assumptions c10_rep_all_traces.
-Print Assumptions c06_rep_all_traces.
-Print Assumptions c10_rep2_all_traces.
-Print Assumptions c06_rep2_all_traces.
-Print Assumptions Refuted.c10_all_traces_refuted.
-Print Assumptions Refuted.c06_all_traces_refuted.
